@@ -1,10 +1,955 @@
-(* Parser round trip, part 2: parse (tokens (print e)) = norm e *)
+(* Proofs/ParserRoundTrip.v - the parser reads back every rendering:  parse (tokens (print e)) = norm e.
+
+   Part 1 (no section): the value printers are plain ASCII, integer literals, token algebra, the continuation class of a
+   token (cont), big-step rules for the fuelled parser ("Ev P v r": with enough fuel P returns POk v r), the level
+   structure PL / LoopL / Beh and the lifting lemma, paths, identifiers.
+   Part 2 (Section RT): token lists of the renderings, the first token of a rendering, the unary prefix, children and
+   parentheses, expression lists and records, values, the main induction, parse_print_expr.
+   Part 3 (Section POL): entities, scopes, annotations, conditions, parse_print_policy, parse_print_policies. *)
 From Coq Require Import ZArith List Bool String Lia Arith.
 Import ListNotations.
 From Cedar Require Import Base.Int64 Base.Utf8 Base.Utf8Enc Lang.Value Impl.Like Lang.Expr Impl.Eval Impl.Text Impl.Decimal Impl.Duration Impl.Datetime
   Impl.Scanner Impl.Tokenizer Impl.Quote Impl.Parser Impl.Printer Lang.RoundTrip Generated.Tables.
-From Cedar Require Import Proofs.QuoteProofs Proofs.ParserFuel Proofs.DecimalProofs Proofs.ParserRoundTrip1.
+From Cedar Require Import Proofs.QuoteProofs Proofs.ParserFuel Proofs.DecimalProofs.
 
+(* ------------------------------------------------------------------------------------------------------------ *)
+(* plain strings: what string_value_plain wants                                                                    *)
+(* ------------------------------------------------------------------------------------------------------------ *)
+Definition plain (c : Z) : Prop := (32 <= c < 127 /\ c <> 34 /\ c <> 92)%Z.
+
+Lemma digits_plain : forall s, Forall (fun c => is_digit c = true) s -> Forall plain s.
+Proof.
+  intros s H. eapply Forall_impl; [|exact H]. intros c Hc. cbv beta in Hc.
+  apply is_digit_range in Hc. unfold plain. lia.
+Qed.
+
+Lemma print_nat_all_digits : forall z, Forall (fun c => is_digit c = true) (print_nat z).
+Proof. intros z. unfold print_nat. apply digits_of_digits. constructor. Qed.
+
+Lemma print_nat_plain : forall z, Forall plain (print_nat z).
+Proof. intros z. apply digits_plain, print_nat_all_digits. Qed.
+
+Lemma repeat_plain : forall n, Forall plain (repeat 48%Z n).
+Proof. induction n as [|n IH]; cbn [repeat]; constructor; [unfold plain; lia | exact IH]. Qed.
+
+Lemma print_padded_plain : forall w z, Forall plain (print_padded w z).
+Proof. intros w z. unfold print_padded. apply Forall_app. split; [apply repeat_plain | apply print_nat_plain]. Qed.
+
+Lemma match48 : forall (A : Type) (Q : A -> Prop) (c : Z) (x y : A), Q x -> Q y -> Q (match c with 48%Z => x | _ => y end).
+Proof.
+  intros A Q c x y Hx Hy. destruct c as [|p|p]; auto.
+  do 6 (try (destruct p as [p|p|]; auto)).
+Qed.
+
+Lemma trim_zeros_Forall : forall (P : Z -> Prop) n rs, Forall P rs -> Forall P (trim_zeros n rs).
+Proof.
+  intros P. induction n as [|n IH]; intros rs H; [destruct rs; exact H|].
+  destruct rs as [|c rs']; [exact H|]. cbn [trim_zeros].
+  apply match48; [|exact H]. apply IH. inversion H; assumption.
+Qed.
+
+Lemma Forall_rev' : forall (A : Type) (P : A -> Prop) l, Forall P l -> Forall P (rev l).
+Proof. intros A P l H. apply Forall_forall. intros x Hx. apply in_rev in Hx. rewrite Forall_forall in H. auto. Qed.
+
+Lemma plain_cons : forall c l, plain c -> Forall plain l -> Forall plain (c :: l).
+Proof. intros; constructor; assumption. Qed.
+
+Lemma print_decimal_plain : forall z, Forall plain (print_decimal z).
+Proof.
+  intros z. unfold print_decimal. apply Forall_rev', trim_zeros_Forall, Forall_rev'.
+  destruct (z <? 0)%Z.
+  - apply plain_cons; [unfold plain; lia|]. apply Forall_app. split; [apply print_nat_plain|].
+    apply plain_cons; [unfold plain; lia | apply print_padded_plain].
+  - apply Forall_app. split; [apply print_nat_plain|].
+    apply plain_cons; [unfold plain; lia | apply print_padded_plain].
+Qed.
+
+Lemma print_duration_plain : forall z, Forall plain (print_duration z).
+Proof.
+  intros z. unfold print_duration.
+  destruct (z =? 0)%Z; [repeat (apply plain_cons; [unfold plain; lia|]); constructor|].
+  cbv zeta.
+  assert (Hpart : forall q suffix, Forall plain suffix -> Forall plain (if (q >? 0)%Z then print_nat q ++ suffix else [])).
+  { intros q suffix Hs. destruct (q >? 0)%Z; [|constructor]. apply Forall_app. split; [apply print_nat_plain | exact Hs]. }
+  repeat (apply Forall_app; split).
+  - destruct (z <? 0)%Z; [apply plain_cons; [unfold plain; lia|]|]; constructor.
+  - apply Hpart. repeat (apply plain_cons; [unfold plain; lia|]); constructor.
+  - apply Hpart. repeat (apply plain_cons; [unfold plain; lia|]); constructor.
+  - apply Hpart. repeat (apply plain_cons; [unfold plain; lia|]); constructor.
+  - apply Hpart. repeat (apply plain_cons; [unfold plain; lia|]); constructor.
+  - apply Hpart. repeat (apply plain_cons; [unfold plain; lia|]); constructor.
+Qed.
+
+Lemma print_datetime_plain : forall z, Forall plain (print_datetime z).
+Proof.
+  intros z. unfold print_datetime. cbv zeta.
+  destruct (civil_from_days (z / MillisPerDay)) as [[y m] d].
+  apply Forall_app. split.
+  - destruct ((0 <=? y)%Z && (y <=? 9999)%Z); [apply print_padded_plain|].
+    apply plain_cons; [destruct (y <? 0)%Z; unfold plain; lia | apply print_padded_plain].
+  - repeat (first [ apply plain_cons; [unfold plain; lia|]
+                  | apply Forall_app; split; [apply print_padded_plain|]
+                  | constructor ]).
+Qed.
+
+(* ------------------------------------------------------------------------------------------------------------ *)
+(* integer literals                                                                                              *)
+(* ------------------------------------------------------------------------------------------------------------ *)
+Lemma digits_val_acc_fold : forall s acc v, digits_val_acc s acc = Some v ->
+  fold_left (fun a c => (a * 10 + (c - 48))%Z) s acc = v.
+Proof.
+  induction s as [|c s IH]; intros acc v H; cbn [digits_val_acc fold_left] in *.
+  - congruence.
+  - destruct (is_digit c); [|discriminate]. apply IH. exact H.
+Qed.
+
+Lemma digits_val_print_nat : forall z, (0 <= z < 10 ^ 40)%Z -> digits_val (print_nat z) = z.
+Proof.
+  intros z Hz. unfold digits_val. apply digits_val_acc_fold.
+  destruct (parse_digits_some _ _ (parse_print_nat z Hz)) as [_ H]. exact H.
+Qed.
+
+Lemma in64_small : forall z, in64b z = true -> (- 10 ^ 40 < z < 10 ^ 40)%Z.
+Proof.
+  intros z H. apply in64b_spec in H. unfold in64, min64, max64, two63 in H.
+  assert (9223372036854775808 < 10 ^ 40)%Z by reflexivity. lia.
+Qed.
+
+Lemma int_value_pos : forall z, (0 <= z)%Z -> in64b z = true -> int_value false (print_nat z) = Some z.
+Proof.
+  intros z Hz Hi. unfold int_value. pose proof (in64_small z Hi).
+  rewrite digits_val_print_nat by lia. rewrite Hi. reflexivity.
+Qed.
+
+Lemma int_value_neg : forall z, (z < 0)%Z -> in64b z = true -> int_value true (print_nat (- z)) = Some z.
+Proof.
+  intros z Hz Hi. unfold int_value. pose proof (in64_small z Hi).
+  rewrite digits_val_print_nat by lia. rewrite Z.opp_involutive, Hi. reflexivity.
+Qed.
+
+(* ------------------------------------------------------------------------------------------------------------ *)
+(* tokens                                                                                                        *)
+(* ------------------------------------------------------------------------------------------------------------ *)
+Definition O (s : string) : token := mk (TOperator, s_of s).
+Definition K (s : string) : token := mk (TReserved, s_of s).
+Definition I (s : string) : token := mk (TIdent, s_of s).
+Definition Id (s : str) : token := mk (TIdent, s).
+Definition St (s : str) : token := mk (TString, s).
+Definition Nt (s : str) : token := mk (TInt, s).
+
+Lemma toks_of_app : forall a b, toks_of (a ++ b) = toks_of a ++ toks_of b.
+Proof. intros a b. unfold toks_of, toks. rewrite flat_map_app, map_app. reflexivity. Qed.
+Lemma toks_of_nil : toks_of [] = [].
+Proof. reflexivity. Qed.
+Lemma toks_of_T : forall ty s l, toks_of (T ty s :: l) = mk (ty, s) :: toks_of l.
+Proof. reflexivity. Qed.
+Lemma toks_of_Sp : forall s l, toks_of (Sp s :: l) = toks_of l.
+Proof. reflexivity. Qed.
+Lemma toks_of_op : forall s l, toks_of (op s :: l) = O s :: toks_of l.
+Proof. reflexivity. Qed.
+Lemma toks_of_kw : forall s l, toks_of (kw s :: l) = K s :: toks_of l.
+Proof. reflexivity. Qed.
+Lemma toks_of_idt : forall s l, toks_of (idt s :: l) = I s :: toks_of l.
+Proof. reflexivity. Qed.
+Lemma toks_of_sp : forall l, toks_of (sp :: l) = toks_of l.
+Proof. reflexivity. Qed.
+Lemma toks_of_nl : forall l, toks_of (nl :: l) = toks_of l.
+Proof. reflexivity. Qed.
+Lemma toks_of_indent : forall l, toks_of (indent :: l) = toks_of l.
+Proof. reflexivity. Qed.
+
+Lemma adv_cons : forall t l, l <> [] -> adv (t :: l) = l.
+Proof. intros t l H. destruct l; [congruence | reflexivity]. Qed.
+Lemma peek_cons : forall t l, peek (t :: l) = t.
+Proof. reflexivity. Qed.
+Lemma app_ne_r : forall (A : Type) (a b : list A), b <> [] -> a ++ b <> [].
+Proof. intros A a b H E. apply app_eq_nil in E. destruct E; contradiction. Qed.
+Lemma cons_ne : forall (A : Type) (x : A) l, x :: l <> [].
+Proof. intros; discriminate. Qed.
+
+Ltac ne := solve [ repeat first [ assumption | apply cons_ne | apply app_ne_r ] ].
+
+Lemma exact_cons : forall t l s, tx t s = true -> l <> [] -> exact (t :: l) s = Some l.
+Proof. intros t l s H Hl. unfold exact. cbn [peek]. rewrite H, adv_cons by exact Hl. reflexivity. Qed.
+
+Lemma tx_eq : forall t s, tx t s = true -> t_text t = s_of s.
+Proof. intros t s H. unfold tx in H. apply str_eqb_eq in H. symmetry. exact H. Qed.
+
+(* ------------------------------------------------------------------------------------------------------------ *)
+(* continuation class of a token: which operator loop of the parser consumes it (0 = none)                         *)
+(* ------------------------------------------------------------------------------------------------------------ *)
+Definition cont_table : list (string * nat) :=
+  [("||", 1); ("&&", 2); ("<", 3); ("<=", 3); (">", 3); (">=", 3); ("!=", 3); ("==", 3); ("in", 3); ("has", 3); ("like", 3); ("is", 3);
+   ("+", 4); ("-", 4); ("*", 5); (".", 7); ("[", 7); ("(", 9); ("::", 9)]%string.
+
+Definition contx (text : str) : nat :=
+  match find (fun e => str_eqb (s_of (fst e)) text) cont_table with Some e => snd e | None => 0 end.
+Definition cont (t : token) : nat := contx (t_text t).
+
+Lemma cont_tx : forall t s, tx t s = true -> cont t = contx (s_of s).
+Proof. intros t s H. unfold cont. rewrite (tx_eq _ _ H). reflexivity. Qed.
+
+Lemma stop_cont : forall t, stop_tok t = true -> cont t = 0.
+Proof.
+  intros t H. unfold stop_tok in H. apply negb_true_iff in H.
+  unfold cont, contx, cont_table. cbn [existsb] in H. unfold tx in H.
+  cbn [find fst snd].
+  repeat (apply orb_false_iff in H; destruct H as [H0 H]; rewrite H0; clear H0).
+  reflexivity.
+Qed.
+
+(* tx t s = false from a bound on cont t in the context *)
+Ltac txf :=
+  match goal with
+  | |- tx ?t ?s = false =>
+    let E := fresh "E" in
+    destruct (tx t s) eqn:E;
+    [ exfalso; apply cont_tx in E;
+      let n := eval vm_compute in (contx (s_of s)) in change (contx (s_of s)) with n in E; lia
+    | reflexivity ]
+  end.
+
+(* cont of a closed token *)
+Ltac contc :=
+  cbn [peek];
+  repeat match goal with
+         | |- context [cont ?t] => let n := eval vm_compute in (cont t) in
+                                   lazymatch n with 0%nat => idtac | S _ => idtac end; change (cont t) with n
+         end;
+  lia.
+
+(* ------------------------------------------------------------------------------------------------------------ *)
+(* "with enough fuel, P returns POk v r"                                                                          *)
+(* ------------------------------------------------------------------------------------------------------------ *)
+Definition Ev {A : Type} (P : nat -> pres A) (v : A) (r : list token) : Prop :=
+  exists f0 : nat, forall f : nat, f0 <= f -> P f = POk v r.
+
+Lemma ev_ret : forall (A : Type) (v : A) r, Ev (fun _ => POk v r) v r.
+Proof. intros A v r. exists 0. intros f _. reflexivity. Qed.
+
+Lemma ev_det : forall (A : Type) (P : nat -> pres A) v r v' r', Ev P v r -> Ev P v' r' -> v = v' /\ r = r'.
+Proof.
+  intros A P v r v' r' [f1 H1] [f2 H2].
+  specialize (H1 (f1 + f2) ltac:(lia)). specialize (H2 (f1 + f2) ltac:(lia)).
+  rewrite H1 in H2. inversion H2. split; reflexivity.
+Qed.
+
+Lemma ev_ret_inv : forall (A : Type) (v w : A) r r', Ev (fun _ => POk v r) w r' -> v = w /\ r = r'.
+Proof. intros A v w r r' H. apply (ev_det _ (fun _ => POk v r)); [apply ev_ret | exact H]. Qed.
+
+Lemma ev_ext : forall (A : Type) (P Q : nat -> pres A) v r, (forall f, P f = Q f) -> Ev P v r -> Ev Q v r.
+Proof. intros A P Q v r H [f0 H0]. exists f0. intros f Hf. rewrite <- H. apply H0. exact Hf. Qed.
+
+(* open all Ev hypotheses, choose a fuel above all of them plus one, and expose one constructor of the fuel *)
+Ltac ev_go :=
+  let rec collect acc :=
+    lazymatch goal with
+    | H : Ev _ _ _ |- _ => let f := fresh "f0" in destruct H as [f H]; collect (acc + f)%nat
+    | _ => exists (S acc)
+    end in
+  collect 0%nat;
+  let f := fresh "f" in let Hf := fresh "Hf" in
+  intros f Hf; destruct f as [|f]; [exfalso; lia|].
+
+(* ------------------------------------------------------------------------------------------------------------ *)
+(* evaluating token tests                                                                                        *)
+(* ------------------------------------------------------------------------------------------------------------ *)
+Ltac tx_eval :=
+  repeat match goal with
+         | |- context [tx ?t ?k] =>
+           let b := eval vm_compute in (tx t k) in
+           lazymatch b with true => idtac | false => idtac end;
+           change (tx t k) with b
+         end.
+
+Lemma is_int_Id s : is_int (Id s) = false. Proof. reflexivity. Qed.
+Lemma is_string_Id s : is_string (Id s) = false. Proof. reflexivity. Qed.
+Lemma is_ident_Id s : is_ident (Id s) = true. Proof. reflexivity. Qed.
+Lemma t_text_Id s : t_text (Id s) = s. Proof. reflexivity. Qed.
+Lemma is_int_St s : is_int (St s) = false. Proof. reflexivity. Qed.
+Lemma is_string_St s : is_string (St s) = true. Proof. reflexivity. Qed.
+Lemma is_ident_St s : is_ident (St s) = false. Proof. reflexivity. Qed.
+Lemma t_text_St s : t_text (St s) = s. Proof. reflexivity. Qed.
+Lemma is_int_Nt s : is_int (Nt s) = true. Proof. reflexivity. Qed.
+Lemma is_string_Nt s : is_string (Nt s) = false. Proof. reflexivity. Qed.
+Lemma is_ident_Nt s : is_ident (Nt s) = false. Proof. reflexivity. Qed.
+Lemma t_text_Nt s : t_text (Nt s) = s. Proof. reflexivity. Qed.
+Lemma is_int_O s : is_int (O s) = false. Proof. reflexivity. Qed.
+Lemma is_string_O s : is_string (O s) = false. Proof. reflexivity. Qed.
+Lemma is_ident_O s : is_ident (O s) = false. Proof. reflexivity. Qed.
+Lemma is_int_K s : is_int (K s) = false. Proof. reflexivity. Qed.
+Lemma is_string_K s : is_string (K s) = false. Proof. reflexivity. Qed.
+Lemma is_ident_K s : is_ident (K s) = false. Proof. reflexivity. Qed.
+Lemma is_int_I s : is_int (I s) = false. Proof. reflexivity. Qed.
+Lemma is_string_I s : is_string (I s) = false. Proof. reflexivity. Qed.
+Lemma is_ident_I s : is_ident (I s) = true. Proof. reflexivity. Qed.
+Lemma t_text_I s : t_text (I s) = s_of s. Proof. reflexivity. Qed.
+#[export] Hint Rewrite is_int_Id is_string_Id is_ident_Id t_text_Id is_int_St is_string_St is_ident_St t_text_St
+  is_int_Nt is_string_Nt is_ident_Nt t_text_Nt is_int_O is_string_O is_ident_O is_int_K is_string_K is_ident_K
+  is_int_I is_string_I is_ident_I t_text_I : tokty.
+
+Ltac tok_eval := cbv zeta; cbn [peek]; tx_eval; autorewrite with tokty; cbn [negb orb andb].
+
+(* ------------------------------------------------------------------------------------------------------------ *)
+(* the relation tail and the unary tail as functions of their own                                                  *)
+(* ------------------------------------------------------------------------------------------------------------ *)
+Definition rel_tail (f : nat) (lhs : expr) (r : list token) : pres expr :=
+  let t := peek r in
+  if tx t "has" then
+    let r1 := adv r in
+    let t1 := peek r1 in
+    if is_ident t1 then p_has_chain f (EHas lhs (t_text t1)) (EAccess lhs (t_text t1)) (adv r1)
+    else if is_string t1 then match string_value (t_text t1) with Some s => POk (EHas lhs s) (adv r1) | None => PErr end
+    else PErr
+  else if tx t "like" then
+    let r1 := adv r in
+    let t1 := peek r1 in
+    if is_string t1 then match parse_pattern (trim_quotes (t_text t1)) with Some p => POk (ELike lhs p) (adv r1) | None => PErr end
+    else PErr
+  else if tx t "is" then
+    match p_path f (adv r) with
+    | POk ty r2 =>
+      if tx (peek r2) "in" then
+        match p_add f (adv r2) with POk b r3 => POk (EIsIn lhs ty b) r3 | PErr => PErr | PFuel => PFuel end
+      else POk (EIs lhs ty) r2
+    | PErr => PErr | PFuel => PFuel
+    end
+  else match relop t with
+       | Some op => match p_add f (adv r) with POk rhs r2 => POk (op lhs rhs) r2 | PErr => PErr | PFuel => PFuel end
+       | None => POk lhs r
+       end.
+
+Lemma p_relation_S' : forall f ts,
+  p_relation (S f) ts = match p_add f ts with POk lhs r => rel_tail f lhs r | PErr => PErr | PFuel => PFuel end.
+Proof. reflexivity. Qed.
+
+Definition unary_tail (f : nat) (ops : list bool) (r : list token) : pres expr :=
+  let tok := peek r in
+  match rev ops with
+  | true :: ops_rev' =>
+    if is_int tok then
+      match int_value true (t_text tok) with
+      | Some i => POk (apply_ops (rev ops_rev') (ELit (VLong i))) (adv r)
+      | None => PErr
+      end
+    else match p_member f r with POk e r2 => POk (apply_ops ops e) r2 | PErr => PErr | PFuel => PFuel end
+  | _ => match p_member f r with POk e r2 => POk (apply_ops ops e) r2 | PErr => PErr | PFuel => PFuel end
+  end.
+
+Lemma p_unary_S' : forall f ts,
+  p_unary (S f) ts = match unary_ops (S (List.length ts)) ts [] with None => PFuel | Some (ops, r) => unary_tail f ops r end.
+Proof. reflexivity. Qed.
+
+Lemma p_unary_prefix : forall f ts, has_non_op ts = true ->
+  p_unary (S f) ts = unary_tail f (fst (ops_prefix ts)) (snd (ops_prefix ts)).
+Proof.
+  intros f ts H. rewrite p_unary_S'.
+  rewrite (unary_ops_result ts [] (S (List.length ts))); [reflexivity | lia | right; exact H].
+Qed.
+
+(* ------------------------------------------------------------------------------------------------------------ *)
+(* levels                                                                                                        *)
+(* ------------------------------------------------------------------------------------------------------------ *)
+Definition PL (L : nat) : nat -> list token -> pres expr :=
+  match L with
+  | 0 => p_expression | 1 => p_or | 2 => p_and | 3 => p_relation | 4 => p_add | 5 => p_mult | 6 => p_unary | 7 => p_member
+  | _ => p_primary
+  end.
+Definition LoopL (L : nat) : nat -> expr -> list token -> pres expr :=
+  match L with
+  | 1 => p_or_loop | 2 => p_and_loop | 3 => rel_tail | 4 => p_add_loop | 5 => p_mult_loop | 7 => p_access_loop
+  | _ => fun _ v r => POk v r
+  end.
+Definition bnd (L : nat) : nat := match L with 3 => 2 | _ => L end.
+
+Definition Beh (L : nat) (X : list token) (v : expr) : Prop :=
+  forall R w r, R <> [] -> cont (peek R) <= bnd L ->
+    Ev (fun g => LoopL L g v R) w r -> Ev (fun f => PL L f (X ++ R)) w r.
+
+(* a loop stops at a token of lower class *)
+Lemma loop_stop : forall L v R, cont (peek R) < L \/ L = 0 -> Ev (fun g => LoopL L g v R) v R.
+Proof.
+  intros L v R H.
+  destruct L as [|[|[|[|[|[|[|[|L]]]]]]]]; cbn [LoopL]; try apply ev_ret; (destruct H as [H|H]; [|discriminate H]).
+  - exists 1. intros f Hf. destruct f as [|f]; [lia|]. rewrite p_or_loop_S.
+    replace (tx (peek R) "||") with false by (symmetry; txf). reflexivity.
+  - exists 1. intros f Hf. destruct f as [|f]; [lia|]. rewrite p_and_loop_S.
+    replace (tx (peek R) "&&") with false by (symmetry; txf). reflexivity.
+  - exists 1. intros f Hf. unfold rel_tail, relop. cbv zeta.
+    replace (tx (peek R) "has") with false by (symmetry; txf).
+    replace (tx (peek R) "like") with false by (symmetry; txf).
+    replace (tx (peek R) "is") with false by (symmetry; txf).
+    replace (tx (peek R) "<") with false by (symmetry; txf).
+    replace (tx (peek R) "<=") with false by (symmetry; txf).
+    replace (tx (peek R) ">") with false by (symmetry; txf).
+    replace (tx (peek R) ">=") with false by (symmetry; txf).
+    replace (tx (peek R) "!=") with false by (symmetry; txf).
+    replace (tx (peek R) "==") with false by (symmetry; txf).
+    replace (tx (peek R) "in") with false by (symmetry; txf).
+    reflexivity.
+  - exists 1. intros f Hf. destruct f as [|f]; [lia|]. rewrite p_add_loop_S. cbv zeta.
+    replace (tx (peek R) "+") with false by (symmetry; txf).
+    replace (tx (peek R) "-") with false by (symmetry; txf). reflexivity.
+  - exists 1. intros f Hf. destruct f as [|f]; [lia|]. rewrite p_mult_loop_S.
+    replace (tx (peek R) "*") with false by (symmetry; txf). reflexivity.
+  - exists 1. intros f Hf. destruct f as [|f]; [lia|]. rewrite p_access_loop_S. cbv zeta.
+    replace (tx (peek R) ".") with false by (symmetry; txf).
+    replace (tx (peek R) "[") with false by (symmetry; txf). reflexivity.
+Qed.
+
+(* one level down: p_L = p_{L+1} followed by the level-L loop *)
+Lemma ev_level : forall L ts v R w r, L <= 7 ->
+  (L = 0 -> tx (peek ts) "if" = false) ->
+  (L = 6 -> is_op (peek ts) = false) ->
+  Ev (fun f => PL (S L) f ts) v R -> Ev (fun g => LoopL L g v R) w r -> Ev (fun f => PL L f ts) w r.
+Proof.
+  intros L ts v R w r HL Hif Hop H1 H2.
+  destruct L as [|[|[|[|[|[|[|[|L]]]]]]]]; [| | | | | | | |lia]; cbn [PL LoopL] in *.
+  - apply ev_ret_inv in H2. destruct H2 as [-> ->]. destruct H1 as [f1 H1].
+    exists (S f1). intros f Hf. destruct f as [|f]; [lia|]. rewrite p_expression_S.
+    rewrite (Hif eq_refl). apply H1. lia.
+  - ev_go. rewrite p_or_S. rewrite H1 by lia. apply H2. lia.
+  - ev_go. rewrite p_and_S. rewrite H1 by lia. apply H2. lia.
+  - ev_go. rewrite p_relation_S'. rewrite H1 by lia. apply H2. lia.
+  - ev_go. rewrite p_add_S. rewrite H1 by lia. apply H2. lia.
+  - ev_go. rewrite p_mult_S. rewrite H1 by lia. apply H2. lia.
+  - apply ev_ret_inv in H2. destruct H2 as [-> ->]. destruct H1 as [f1 H1].
+    exists (S f1). intros f Hf. destruct f as [|f]; [lia|]. rewrite p_unary_S'.
+    specialize (Hop eq_refl). unfold is_op in Hop. apply orb_false_iff in Hop. destruct Hop as [Hm Hb].
+    cbn [unary_ops]. cbv zeta. rewrite Hm, Hb. unfold unary_tail. cbn [rev]. rewrite H1 by lia. reflexivity.
+  - ev_go. rewrite p_member_S. rewrite H1 by lia. apply H2. lia.
+Qed.
+
+Lemma bnd_le : forall L, bnd L <= L.
+Proof. intros L. destruct L as [|[|[|[|L]]]]; cbn; lia. Qed.
+
+Lemma lift1 : forall L X h tl v, L <= 7 -> X = h :: tl ->
+  (L = 0 -> tx h "if" = false) -> (L = 6 -> is_op h = false) ->
+  Beh (S L) X v -> Beh L X v.
+Proof.
+  intros L X h tl v HL HX Hif Hop HB R w r HR Hc Hloop.
+  pose proof (bnd_le L) as Hb.
+  assert (Hc' : cont (peek R) <= bnd (S L)).
+  { destruct L as [|[|[|[|L]]]]; cbn [bnd] in *; lia. }
+  eapply ev_level; [exact HL | | | | exact Hloop].
+  - intros E. subst X. cbn [app peek]. apply Hif. exact E.
+  - intros E. subst X. cbn [app peek]. apply Hop. exact E.
+  - apply HB; [exact HR | exact Hc' |]. apply loop_stop. left. lia.
+Qed.
+
+Lemma lift : forall d L X h tl v, L + d <= 8 -> X = h :: tl ->
+  (L = 0 -> 0 < d -> tx h "if" = false) -> (L <= 6 -> 6 < L + d -> is_op h = false) ->
+  Beh (L + d) X v -> Beh L X v.
+Proof.
+  induction d as [|d IH]; intros L X h tl v HL HX Hif Hop HB.
+  - rewrite Nat.add_0_r in HB. exact HB.
+  - apply (lift1 L X h tl v); [lia | exact HX | intros E; apply Hif; [exact E | lia] | |].
+    + intros E. apply Hop; lia.
+    + replace (L + S d) with (S L + d) in HB by lia.
+      apply (IH (S L) X h tl v); [lia | exact HX | intros E; discriminate E | | exact HB].
+      intros H1 H2. apply Hop; lia.
+Qed.
+
+(* value form *)
+Lemma beh_val : forall L X v R, Beh L X v -> R <> [] -> cont (peek R) <= bnd L ->
+  (cont (peek R) < L \/ L = 0 \/ L = 6 \/ 8 <= L) -> Ev (fun f => PL L f (X ++ R)) v R.
+Proof.
+  intros L X v R HB HR Hc Hs. apply HB; [exact HR | exact Hc |].
+  destruct Hs as [Hs|[Hs|[Hs|Hs]]].
+  - apply loop_stop. left. exact Hs.
+  - apply loop_stop. right. exact Hs.
+  - subst L. apply ev_ret.
+  - do 8 (destruct L as [|L]; [lia|]). apply ev_ret.
+Qed.
+
+(* at the levels whose "loop" is no loop, behaviour is the value form *)
+Lemma beh_of_val : forall L X v, (L = 0 \/ L = 3 \/ L = 6 \/ 8 <= L) ->
+  (forall R, R <> [] -> cont (peek R) <= bnd L -> Ev (fun f => PL L f (X ++ R)) v R) -> Beh L X v.
+Proof.
+  intros L X v HL H R w r HR Hc Hloop.
+  assert (Hst : Ev (fun g => LoopL L g v R) v R).
+  { destruct HL as [HL|[HL|[HL|HL]]].
+    - apply loop_stop. right. exact HL.
+    - subst L. apply loop_stop. left. cbn [bnd] in Hc. lia.
+    - subst L. apply ev_ret.
+    - do 8 (destruct L as [|L]; [lia|]). apply ev_ret. }
+  destruct (ev_det _ _ _ _ _ _ Hst Hloop) as [<- <-]. apply H; assumption.
+Qed.
+
+(* ------------------------------------------------------------------------------------------------------------ *)
+(* big-step rules                                                                                                *)
+(* ------------------------------------------------------------------------------------------------------------ *)
+Lemma ev_expression_if : forall l c r1 r2 a r3 r4 b r5, l <> [] ->
+  Ev (fun f => p_expression f l) c r1 -> exact r1 "then" = Some r2 ->
+  Ev (fun f => p_expression f r2) a r3 -> exact r3 "else" = Some r4 ->
+  Ev (fun f => p_expression f r4) b r5 ->
+  Ev (fun f => p_expression f (K "if" :: l)) (EIf c a b) r5.
+Proof.
+  intros l c r1 r2 a r3 r4 b r5 Hl H1 E1 H2 E2 H3. ev_go.
+  rewrite p_expression_S. tok_eval. rewrite adv_cons by exact Hl.
+  rewrite H1 by lia. rewrite E1. rewrite H2 by lia. rewrite E2. rewrite H3 by lia. reflexivity.
+Qed.
+
+Lemma ev_or_loop : forall l rhs r1 lhs w r, l <> [] ->
+  Ev (fun f => p_and f l) rhs r1 -> Ev (fun f => p_or_loop f (EOr lhs rhs) r1) w r ->
+  Ev (fun f => p_or_loop f lhs (O "||" :: l)) w r.
+Proof.
+  intros l rhs r1 lhs w r Hl H1 H2. ev_go. rewrite p_or_loop_S. tok_eval. rewrite adv_cons by exact Hl.
+  rewrite H1 by lia. apply H2. lia.
+Qed.
+
+Lemma ev_and_loop : forall l rhs r1 lhs w r, l <> [] ->
+  Ev (fun f => p_relation f l) rhs r1 -> Ev (fun f => p_and_loop f (EAnd lhs rhs) r1) w r ->
+  Ev (fun f => p_and_loop f lhs (O "&&" :: l)) w r.
+Proof.
+  intros l rhs r1 lhs w r Hl H1 H2. ev_go. rewrite p_and_loop_S. tok_eval. rewrite adv_cons by exact Hl.
+  rewrite H1 by lia. apply H2. lia.
+Qed.
+
+Lemma ev_add_loop_plus : forall l rhs r1 lhs w r, l <> [] ->
+  Ev (fun f => p_mult f l) rhs r1 -> Ev (fun f => p_add_loop f (EAdd lhs rhs) r1) w r ->
+  Ev (fun f => p_add_loop f lhs (O "+" :: l)) w r.
+Proof.
+  intros l rhs r1 lhs w r Hl H1 H2. ev_go. rewrite p_add_loop_S. tok_eval. rewrite adv_cons by exact Hl.
+  rewrite H1 by lia. apply H2. lia.
+Qed.
+
+Lemma ev_add_loop_minus : forall l rhs r1 lhs w r, l <> [] ->
+  Ev (fun f => p_mult f l) rhs r1 -> Ev (fun f => p_add_loop f (ESub lhs rhs) r1) w r ->
+  Ev (fun f => p_add_loop f lhs (O "-" :: l)) w r.
+Proof.
+  intros l rhs r1 lhs w r Hl H1 H2. ev_go. rewrite p_add_loop_S. tok_eval. rewrite adv_cons by exact Hl.
+  rewrite H1 by lia. apply H2. lia.
+Qed.
+
+Lemma ev_mult_loop : forall l rhs r1 lhs w r, l <> [] ->
+  Ev (fun f => p_unary f l) rhs r1 -> Ev (fun f => p_mult_loop f (EMul lhs rhs) r1) w r ->
+  Ev (fun f => p_mult_loop f lhs (O "*" :: l)) w r.
+Proof.
+  intros l rhs r1 lhs w r Hl H1 H2. ev_go. rewrite p_mult_loop_S. tok_eval. rewrite adv_cons by exact Hl.
+  rewrite H1 by lia. apply H2. lia.
+Qed.
+
+(* relation tails *)
+Lemma ev_rel_op : forall t l opf lhs rhs r2,
+  relop t = Some opf -> tx t "has" = false -> tx t "like" = false -> tx t "is" = false -> l <> [] ->
+  Ev (fun f => p_add f l) rhs r2 -> Ev (fun f => rel_tail f lhs (t :: l)) (opf lhs rhs) r2.
+Proof.
+  intros t l opf lhs rhs r2 Hop H1 H2 H3 Hl H. ev_go. unfold rel_tail. cbv zeta. cbn [peek].
+  rewrite H1, H2, H3, Hop. rewrite adv_cons by exact Hl. rewrite H by lia. reflexivity.
+Qed.
+
+Lemma ev_rel_has_ident : forall k R lhs, R <> [] -> tx (peek R) "." = false ->
+  Ev (fun f => rel_tail f lhs (K "has" :: Id k :: R)) (EHas lhs k) R.
+Proof.
+  intros k R lhs HR Hdot. exists 1. intros f Hf. destruct f as [|f]; [lia|].
+  unfold rel_tail. tok_eval. rewrite adv_cons by ne. tok_eval. rewrite adv_cons by exact HR.
+  rewrite p_has_chain_S. rewrite Hdot. reflexivity.
+Qed.
+
+Lemma ev_rel_has_str : forall s k R lhs, string_value s = Some k -> R <> [] ->
+  Ev (fun f => rel_tail f lhs (K "has" :: St s :: R)) (EHas lhs k) R.
+Proof.
+  intros s k R lhs Hs HR. exists 0. intros f Hf.
+  unfold rel_tail. tok_eval. rewrite adv_cons by ne. tok_eval. rewrite adv_cons by exact HR.
+  rewrite Hs. reflexivity.
+Qed.
+
+Lemma ev_rel_like : forall s p R lhs, parse_pattern (trim_quotes s) = Some p -> R <> [] ->
+  Ev (fun f => rel_tail f lhs (K "like" :: St s :: R)) (ELike lhs p) R.
+Proof.
+  intros s p R lhs Hs HR. exists 0. intros f Hf.
+  unfold rel_tail. tok_eval. rewrite adv_cons by ne. tok_eval. rewrite adv_cons by exact HR.
+  rewrite Hs. reflexivity.
+Qed.
+
+Lemma ev_rel_is : forall l ty r2 lhs, l <> [] -> Ev (fun f => p_path f l) ty r2 -> tx (peek r2) "in" = false ->
+  Ev (fun f => rel_tail f lhs (K "is" :: l)) (EIs lhs ty) r2.
+Proof.
+  intros l ty r2 lhs Hl H Hin. destruct H as [f0 H]. exists f0. intros f Hf.
+  unfold rel_tail. tok_eval. rewrite adv_cons by exact Hl. rewrite H by lia. rewrite Hin. reflexivity.
+Qed.
+
+Lemma ev_rel_isin : forall l ty l2 b r3 lhs, l <> [] -> Ev (fun f => p_path f l) ty (K "in" :: l2) -> l2 <> [] ->
+  Ev (fun f => p_add f l2) b r3 ->
+  Ev (fun f => rel_tail f lhs (K "is" :: l)) (EIsIn lhs ty b) r3.
+Proof.
+  intros l ty l2 b r3 lhs Hl H Hl2 H2. destruct H as [f0 H]. destruct H2 as [f1 H2]. exists (f0 + f1). intros f Hf.
+  unfold rel_tail. tok_eval. rewrite adv_cons by exact Hl. rewrite H by lia. tok_eval.
+  rewrite adv_cons by exact Hl2. rewrite H2 by lia. reflexivity.
+Qed.
+
+(* access loop *)
+Lemma ev_access_field : forall k R lhs w r, R <> [] -> tx (peek R) "(" = false ->
+  Ev (fun f => p_access_loop f (EAccess lhs k) R) w r ->
+  Ev (fun f => p_access_loop f lhs (O "." :: Id k :: R)) w r.
+Proof.
+  intros k R lhs w r HR Hp H. ev_go. rewrite p_access_loop_S. tok_eval.
+  rewrite adv_cons by ne. tok_eval. rewrite adv_cons by exact HR. rewrite Hp. apply H. lia.
+Qed.
+
+Lemma ev_access_index : forall s k R lhs w r, string_value s = Some k -> R <> [] ->
+  Ev (fun f => p_access_loop f (EAccess lhs k) R) w r ->
+  Ev (fun f => p_access_loop f lhs (O "[" :: St s :: O "]" :: R)) w r.
+Proof.
+  intros s k R lhs w r Hs HR H. ev_go. rewrite p_access_loop_S. tok_eval.
+  rewrite adv_cons by ne. tok_eval. rewrite Hs. rewrite adv_cons by ne.
+  rewrite exact_cons by (reflexivity || exact HR). apply H. lia.
+Qed.
+
+Lemma ev_access_method : forall n l args R e lhs w r, l <> [] ->
+  Ev (fun f => p_expressions f ")" l []) args (O ")" :: R) -> R <> [] ->
+  method_call n lhs args = Some e ->
+  Ev (fun f => p_access_loop f e R) w r ->
+  Ev (fun f => p_access_loop f lhs (O "." :: Id n :: O "(" :: l)) w r.
+Proof.
+  intros n l args R e lhs w r Hl H1 HR Hm H2. ev_go. rewrite p_access_loop_S. tok_eval.
+  rewrite adv_cons by ne. tok_eval. rewrite adv_cons by ne. tok_eval. rewrite adv_cons by exact Hl.
+  rewrite H1 by lia. rewrite Hm. rewrite adv_cons by exact HR. apply H2. lia.
+Qed.
+
+(* primaries *)
+Lemma ev_primary_int : forall s z R, int_value false s = Some z -> R <> [] ->
+  Ev (fun f => p_primary f (Nt s :: R)) (ELit (VLong z)) R.
+Proof.
+  intros s z R Hs HR. exists 1. intros f Hf. destruct f as [|f]; [lia|].
+  rewrite p_primary_S. tok_eval. rewrite Hs, adv_cons by exact HR. reflexivity.
+Qed.
+
+Lemma ev_primary_str : forall s k R, string_value s = Some k -> R <> [] ->
+  Ev (fun f => p_primary f (St s :: R)) (ELit (VString k)) R.
+Proof.
+  intros s k R Hs HR. exists 1. intros f Hf. destruct f as [|f]; [lia|].
+  rewrite p_primary_S. tok_eval. rewrite Hs, adv_cons by exact HR. reflexivity.
+Qed.
+
+Lemma ev_primary_true : forall R, R <> [] -> Ev (fun f => p_primary f (K "true" :: R)) (ELit (VBool true)) R.
+Proof.
+  intros R HR. exists 1. intros f Hf. destruct f as [|f]; [lia|].
+  rewrite p_primary_S. tok_eval. rewrite adv_cons by exact HR. reflexivity.
+Qed.
+
+Lemma ev_primary_false : forall R, R <> [] -> Ev (fun f => p_primary f (K "false" :: R)) (ELit (VBool false)) R.
+Proof.
+  intros R HR. exists 1. intros f Hf. destruct f as [|f]; [lia|].
+  rewrite p_primary_S. tok_eval. rewrite adv_cons by exact HR. reflexivity.
+Qed.
+
+Definition var_tok (x : var) : token :=
+  match x with VPrincipal => I "principal" | VAction => I "action" | VResource => I "resource" | VContext => I "context" end.
+
+Lemma ev_primary_var : forall x R, R <> [] -> tx (peek R) "::" = false -> tx (peek R) "(" = false ->
+  Ev (fun f => p_primary f (var_tok x :: R)) (EVar x) R.
+Proof.
+  intros x R HR H1 H2. exists 1. intros f Hf. destruct f as [|f]; [lia|].
+  rewrite p_primary_S. destruct x; cbn [var_tok]; tok_eval; rewrite adv_cons by exact HR; rewrite H1, H2; reflexivity.
+Qed.
+
+Lemma ev_primary_ident : forall s R w r, tx (Id s) "true" = false -> tx (Id s) "false" = false ->
+  tx (peek R) "::" || tx (peek R) "(" = true -> R <> [] ->
+  Ev (fun f => p_entity_or_extfun f s R) w r -> Ev (fun f => p_primary f (Id s :: R)) w r.
+Proof.
+  intros s R w r H1 H2 H3 HR H. ev_go. rewrite p_primary_S. tok_eval.
+  rewrite H1, H2. rewrite adv_cons by exact HR. rewrite H3. apply H. lia.
+Qed.
+
+Lemma ev_primary_paren : forall l e r1 r2, l <> [] -> Ev (fun f => p_expression f l) e r1 -> exact r1 ")" = Some r2 ->
+  Ev (fun f => p_primary f (O "(" :: l)) e r2.
+Proof.
+  intros l e r1 r2 Hl H E. ev_go. rewrite p_primary_S. tok_eval. rewrite adv_cons by exact Hl.
+  rewrite H by lia. rewrite E. reflexivity.
+Qed.
+
+Lemma ev_primary_set : forall l es R, l <> [] -> Ev (fun f => p_expressions f "]" l []) es (O "]" :: R) -> R <> [] ->
+  Ev (fun f => p_primary f (O "[" :: l)) (ESet es) R.
+Proof.
+  intros l es R Hl H HR. ev_go. rewrite p_primary_S. tok_eval. rewrite adv_cons by exact Hl.
+  rewrite H by lia. rewrite adv_cons by exact HR. reflexivity.
+Qed.
+
+Lemma ev_primary_record : forall l w r, l <> [] -> Ev (fun f => p_record f l []) w r ->
+  Ev (fun f => p_primary f (O "{" :: l)) w r.
+Proof.
+  intros l w r Hl H. ev_go. rewrite p_primary_S. tok_eval. rewrite adv_cons by exact Hl. apply H. lia.
+Qed.
+
+(* entity or extension function *)
+Lemma ev_eoe_ident : forall pre c l w r, l <> [] ->
+  Ev (fun f => p_entity_or_extfun f (pre ++ path_sep ++ c) l) w r ->
+  Ev (fun f => p_entity_or_extfun f pre (O "::" :: Id c :: l)) w r.
+Proof.
+  intros pre c l w r Hl H. ev_go. rewrite p_entity_or_extfun_S. tok_eval.
+  rewrite adv_cons by ne. tok_eval. rewrite adv_cons by exact Hl. apply H. lia.
+Qed.
+
+Lemma ev_eoe_str : forall pre s id R, string_value s = Some id -> R <> [] ->
+  Ev (fun f => p_entity_or_extfun f pre (O "::" :: St s :: R)) (ELit (VEntity pre id)) R.
+Proof.
+  intros pre s id R Hs HR. exists 1. intros f Hf. destruct f as [|f]; [lia|].
+  rewrite p_entity_or_extfun_S. tok_eval. rewrite adv_cons by ne. tok_eval. rewrite Hs.
+  rewrite adv_cons by exact HR. reflexivity.
+Qed.
+
+Lemma ev_eoe_call : forall pre l args R ar, ext_lookup pre = Some (ar, false) -> l <> [] ->
+  Ev (fun f => p_expressions f ")" l []) args (O ")" :: R) -> R <> [] ->
+  Ev (fun f => p_entity_or_extfun f pre (O "(" :: l)) (ECall pre args) R.
+Proof.
+  intros pre l args R ar He Hl H HR. ev_go. rewrite p_entity_or_extfun_S. tok_eval. rewrite He.
+  rewrite adv_cons by exact Hl. rewrite H by lia. rewrite adv_cons by exact HR. reflexivity.
+Qed.
+
+(* expression lists *)
+Lemma ev_exprs_stop : forall close ts acc, tx (peek ts) close = true ->
+  Ev (fun f => p_expressions f close ts acc) acc ts.
+Proof.
+  intros close ts acc H. exists 1. intros f Hf. destruct f as [|f]; [lia|].
+  rewrite p_expressions_S. rewrite H. reflexivity.
+Qed.
+
+Lemma ev_exprs_comma : forall close ts e l acc w r, tx (peek ts) close = false ->
+  Ev (fun f => p_expression f ts) e (O "," :: l) -> l <> [] ->
+  Ev (fun f => p_expressions f close l (acc ++ [e])) w r ->
+  Ev (fun f => p_expressions f close ts acc) w r.
+Proof.
+  intros close ts e l acc w r Hc H1 Hl H2. ev_go. rewrite p_expressions_S. rewrite Hc.
+  rewrite H1 by lia. tok_eval. rewrite adv_cons by exact Hl. apply H2. lia.
+Qed.
+
+Lemma ev_exprs_last : forall close ts e r1 acc, tx (peek ts) close = false ->
+  Ev (fun f => p_expression f ts) e r1 -> tx (peek r1) "," = false -> tx (peek r1) close = true ->
+  Ev (fun f => p_expressions f close ts acc) (acc ++ [e]) r1.
+Proof.
+  intros close ts e r1 acc Hc H1 Hcm Hcl. destruct H1 as [f1 H1]. exists (S (S f1)). intros f Hf.
+  destruct f as [|f]; [lia|]. rewrite p_expressions_S. rewrite Hc. rewrite H1 by lia. rewrite Hcm, Hcl.
+  destruct f as [|f]; [lia|]. rewrite p_expressions_S. rewrite Hcl. reflexivity.
+Qed.
+
+(* records *)
+Lemma ev_record_end : forall R acc, R <> [] -> Ev (fun f => p_record f (O "}" :: R) acc) (ERecord acc) R.
+Proof.
+  intros R acc HR. exists 1. intros f Hf. destruct f as [|f]; [lia|].
+  rewrite p_record_S. tok_eval. rewrite adv_cons by exact HR. reflexivity.
+Qed.
+
+Lemma ev_record_comma : forall s k l v l2 acc w r, tx (St s) "}" = false -> string_value s = Some k -> l <> [] ->
+  Ev (fun f => p_expression f l) v (O "," :: l2) -> key_mem k acc = false -> l2 <> [] ->
+  Ev (fun f => p_record f l2 (acc ++ [(k, v)])) w r ->
+  Ev (fun f => p_record f (St s :: O ":" :: l) acc) w r.
+Proof.
+  intros s k l v l2 acc w r Hb Hs Hl H1 Hk Hl2 H2. ev_go. rewrite p_record_S. cbv zeta. cbn [peek]. rewrite Hb.
+  autorewrite with tokty. rewrite Hs. rewrite adv_cons by ne. rewrite exact_cons by (reflexivity || exact Hl).
+  rewrite H1 by lia. rewrite Hk. tok_eval. rewrite adv_cons by exact Hl2. apply H2. lia.
+Qed.
+
+Lemma ev_record_last : forall s k l v R acc, tx (St s) "}" = false -> string_value s = Some k -> l <> [] ->
+  Ev (fun f => p_expression f l) v (O "}" :: R) -> key_mem k acc = false -> R <> [] ->
+  Ev (fun f => p_record f (St s :: O ":" :: l) acc) (ERecord (acc ++ [(k, v)])) R.
+Proof.
+  intros s k l v R acc Hb Hs Hl H1 Hk HR. destruct H1 as [f1 H1]. exists (S (S f1)). intros f Hf.
+  destruct f as [|f]; [lia|]. rewrite p_record_S. cbv zeta. cbn [peek]. rewrite Hb.
+  autorewrite with tokty. rewrite Hs. rewrite adv_cons by ne. rewrite exact_cons by (reflexivity || exact Hl).
+  rewrite H1 by lia. rewrite Hk. tok_eval.
+  destruct f as [|f]; [lia|]. rewrite p_record_S. tok_eval. rewrite adv_cons by exact HR. reflexivity.
+Qed.
+
+(* unary tails *)
+Lemma ev_utail_member : forall ops r e r2,
+  (forall ops', rev ops = true :: ops' -> is_int (peek r) = false) ->
+  Ev (fun f => p_member f r) e r2 -> Ev (fun f => unary_tail f ops r) (apply_ops ops e) r2.
+Proof.
+  intros ops r e r2 Hc H. destruct H as [f0 H]. exists f0. intros f Hf. unfold unary_tail. cbv zeta.
+  destruct (rev ops) as [|[|] ops'] eqn:E.
+  - rewrite H by lia. reflexivity.
+  - rewrite (Hc ops' eq_refl). rewrite H by lia. reflexivity.
+  - rewrite H by lia. reflexivity.
+Qed.
+
+Lemma ev_utail_lit : forall pre s z R, int_value true s = Some z -> R <> [] ->
+  Ev (fun f => unary_tail f (pre ++ [true]) (Nt s :: R)) (apply_ops pre (ELit (VLong z))) R.
+Proof.
+  intros pre s z R Hs HR. exists 0. intros f Hf. unfold unary_tail. cbv zeta. rewrite rev_app_distr. cbn [rev app].
+  cbn [peek]. autorewrite with tokty. rewrite Hs. rewrite rev_involutive. rewrite adv_cons by exact HR. reflexivity.
+Qed.
+
+(* ------------------------------------------------------------------------------------------------------------ *)
+(* paths                                                                                                         *)
+(* ------------------------------------------------------------------------------------------------------------ *)
+Lemma split_path_acc_cons : forall c r cur,
+  split_path_acc (c :: r) cur =
+  if (c =? 58)%Z then
+    match r with
+    | c2 :: r' => if (c2 =? 58)%Z then cur :: split_path_acc r' [] else split_path_acc r (cur ++ [c])
+    | [] => split_path_acc r (cur ++ [c])
+    end
+  else split_path_acc r (cur ++ [c]).
+Proof.
+  intros c r cur. cbn [split_path_acc].
+  destruct c as [|p|p]; try reflexivity.
+  do 6 (destruct p as [p|p|]; try reflexivity).
+  destruct r as [|c2 r']; [reflexivity|].
+  destruct c2 as [|p|p]; try reflexivity.
+  do 6 (destruct p as [p|p|]; try reflexivity).
+Qed.
+
+Lemma split_path_acc_ne : forall s cur, split_path_acc s cur <> [].
+Proof.
+  assert (H : forall s, (forall cur, split_path_acc s cur <> []) /\ (forall c cur, split_path_acc (c :: s) cur <> [])).
+  { induction s as [|c s [IH1 IH2]].
+    - split; [intros cur; discriminate|]. intros c cur. rewrite split_path_acc_cons. destruct (c =? 58)%Z; discriminate.
+    - split; [intros cur; apply IH2|]. intros c' cur. rewrite split_path_acc_cons.
+      destruct (c' =? 58)%Z; [|apply IH2]. destruct (c =? 58)%Z; [discriminate | apply IH2]. }
+  intros s. apply H.
+Qed.
+
+Fixpoint join_path (cs : list str) : str :=
+  match cs with
+  | [] => []
+  | c :: r => match r with [] => c | _ => c ++ path_sep ++ join_path r end
+  end.
+
+Lemma join_split_acc : forall s cur, join_path (split_path_acc s cur) = cur ++ s.
+Proof.
+  assert (H : forall s, (forall cur, join_path (split_path_acc s cur) = cur ++ s) /\
+                        (forall c cur, join_path (split_path_acc (c :: s) cur) = cur ++ c :: s)).
+  { induction s as [|c s [IH1 IH2]].
+    - split; [intros cur; cbn; rewrite app_nil_r; reflexivity|]. intros c cur. rewrite split_path_acc_cons.
+      destruct (c =? 58)%Z; reflexivity.
+    - split; [intros cur; apply IH2|]. intros c' cur. rewrite split_path_acc_cons.
+      destruct (Z.eqb_spec c' 58) as [->|N1].
+      + destruct (Z.eqb_spec c 58) as [->|N2].
+        * cbn [join_path]. destruct (split_path_acc s []) eqn:E; [exfalso; exact (split_path_acc_ne s [] E)|].
+          rewrite <- E. rewrite IH1. reflexivity.
+        * rewrite IH2. rewrite <- app_assoc. reflexivity.
+      + rewrite IH2. rewrite <- app_assoc. reflexivity. }
+  intros s. apply H.
+Qed.
+
+Lemma join_split : forall ty, join_path (split_path ty) = ty.
+Proof. intros ty. unfold split_path. apply join_split_acc. Qed.
+
+Lemma split_path_plain : forall s cur, Forall (fun c => c <> 58%Z) s -> split_path_acc s cur = [cur ++ s].
+Proof.
+  induction s as [|c s IH]; intros cur H.
+  - cbn. rewrite app_nil_r. reflexivity.
+  - inversion H as [|c' s' Hc Hs]; subst. rewrite split_path_acc_cons.
+    destruct (Z.eqb_spec c 58) as [E|N]; [contradiction|]. rewrite IH by exact Hs. rewrite <- app_assoc. reflexivity.
+Qed.
+
+Definition jf (a c : str) : str := a ++ path_sep ++ c.
+
+Lemma fold_jf_pre : forall r pre a, fold_left jf r (pre ++ a) = pre ++ fold_left jf r a.
+Proof.
+  induction r as [|c r IH]; intros pre a; [reflexivity|].
+  cbn [fold_left]. unfold jf at 2 4. rewrite <- app_assoc. apply IH.
+Qed.
+
+Lemma fold_jf_join : forall r c, fold_left jf r c = join_path (c :: r).
+Proof.
+  induction r as [|c2 r IH]; intros c; [reflexivity|].
+  cbn [fold_left]. change (jf c c2) with (c ++ (path_sep ++ c2)). rewrite !fold_jf_pre. rewrite IH. reflexivity.
+Qed.
+
+Fixpoint sep_toks (cs : list str) : list token :=
+  match cs with [] => [] | c :: r => O "::" :: Id c :: sep_toks r end.
+
+Lemma toks_path_items_of : forall r c, toks_of (path_items_of (c :: r)) = Id c :: sep_toks r.
+Proof.
+  induction r as [|c2 r IH]; intros c; [reflexivity|].
+  change (path_items_of (c :: c2 :: r)) with (T TIdent c :: op "::" :: path_items_of (c2 :: r)).
+  rewrite toks_of_T, toks_of_op, IH. reflexivity.
+Qed.
+
+Lemma ev_path_rest : forall r acc R, R <> [] -> tx (peek R) "::" = false ->
+  Ev (fun f => path_rest f acc (sep_toks r ++ R)) (fold_left jf r acc) R.
+Proof.
+  induction r as [|c r IH]; intros acc R HR Hc.
+  - exists 1. intros f Hf. destruct f as [|f]; [lia|]. cbn [sep_toks app path_rest fold_left]. rewrite Hc. reflexivity.
+  - destruct (IH (jf acc c) R HR Hc) as [f0 H]. exists (S f0). intros f Hf. destruct f as [|f]; [lia|].
+    cbn [sep_toks app path_rest fold_left]. tok_eval. rewrite adv_cons by ne. tok_eval. rewrite adv_cons by ne.
+    apply H. lia.
+Qed.
+
+Lemma ev_p_path : forall c r R, R <> [] -> tx (peek R) "::" = false ->
+  Ev (fun f => p_path f (Id c :: sep_toks r ++ R)) (join_path (c :: r)) R.
+Proof.
+  intros c r R HR Hc. destruct (ev_path_rest r c R HR Hc) as [f0 H]. exists f0. intros f Hf.
+  unfold p_path. tok_eval. rewrite adv_cons by ne. rewrite <- fold_jf_join. apply H. exact Hf.
+Qed.
+
+Lemma ev_eoe_path : forall r pre s id R, string_value s = Some id -> R <> [] ->
+  Ev (fun f => p_entity_or_extfun f pre (sep_toks r ++ O "::" :: St s :: R)) (ELit (VEntity (fold_left jf r pre) id)) R.
+Proof.
+  induction r as [|c r IH]; intros pre s id R Hs HR.
+  - cbn [sep_toks app fold_left]. apply ev_eoe_str; assumption.
+  - cbn [sep_toks app fold_left]. apply ev_eoe_ident; [ne|]. apply IH; assumption.
+Qed.
+
+(* ------------------------------------------------------------------------------------------------------------ *)
+(* identifiers                                                                                                   *)
+(* ------------------------------------------------------------------------------------------------------------ *)
+Lemma can_ident_inv : forall s, can_ident s = true ->
+  exists c r, s = c :: r /\ is_reserved s = false /\ is_ident_rune c true = true /\ forallb (fun x => is_ident_rune x false) r = true.
+Proof.
+  intros s H. destruct s as [|c r]; [discriminate|]. cbn [can_ident] in H.
+  apply andb_true_iff in H. destruct H as [H H3]. apply andb_true_iff in H. destruct H as [H1 H2].
+  apply negb_true_iff in H1. exists c, r. repeat split; assumption.
+Qed.
+
+Lemma ident_rune_not_colon : forall c b, is_ident_rune c b = true -> c <> 58%Z.
+Proof.
+  intros c b H E. subst c. destruct b; discriminate H.
+Qed.
+
+Lemma can_ident_no_colon : forall s, can_ident s = true -> Forall (fun c => c <> 58%Z) s.
+Proof.
+  intros s H. destruct (can_ident_inv s H) as (c & r & -> & _ & Hc & Hr).
+  constructor; [eapply ident_rune_not_colon; exact Hc|].
+  rewrite forallb_forall in Hr. apply Forall_forall. intros x Hx. eapply ident_rune_not_colon. apply Hr. exact Hx.
+Qed.
+
+Lemma split_path_ident : forall s, can_ident s = true -> split_path s = [s].
+Proof. intros s H. unfold split_path. rewrite split_path_plain by (apply can_ident_no_colon; exact H). reflexivity. Qed.
+
+(* an identifier token is none of the fixed tokens the parser tests for, unless that token is itself an
+   identifier-shaped non-reserved word *)
+Lemma tx_ident_first : forall s k c0 k', can_ident s = true -> s_of k = c0 :: k' -> is_ident_rune c0 true = false ->
+  tx (Id s) k = false.
+Proof.
+  intros s k c0 k' H Hk Hc. destruct (can_ident_inv s H) as (c & r & -> & _ & Hc1 & _).
+  unfold tx. rewrite t_text_Id, Hk. cbn [str_eqb].
+  destruct (Z.eqb_spec c0 c) as [->|N]; [congruence | reflexivity].
+Qed.
+
+Lemma tx_ident_reserved : forall s k, can_ident s = true -> is_reserved (s_of k) = true -> tx (Id s) k = false.
+Proof.
+  intros s k H Hk. destruct (can_ident_inv s H) as (c & r & E & Hr & _ & _).
+  unfold tx. rewrite t_text_Id. destruct (str_eqb (s_of k) s) eqn:Eq; [|reflexivity].
+  apply str_eqb_eq in Eq. rewrite Eq in Hk. congruence.
+Qed.
+
+Lemma tx_string_tok : forall b k c0 k', s_of k = c0 :: k' -> c0 <> 34%Z -> tx (St (34%Z :: b)) k = false.
+Proof.
+  intros b k c0 k' Hk Hc. unfold tx. rewrite t_text_St, Hk. cbn [str_eqb].
+  destruct (Z.eqb_spec c0 34) as [->|N]; [congruence | reflexivity].
+Qed.
+
+Lemma tx_int_tok : forall s k c0 k', s <> [] -> Forall (fun c => is_digit c = true) s -> s_of k = c0 :: k' -> is_digit c0 = false ->
+  tx (Nt s) k = false.
+Proof.
+  intros s k c0 k' Hne Hd Hk Hc. destruct s as [|c r]; [congruence|]. inversion Hd as [|c' r' Hc' Hr']; subst.
+  unfold tx. rewrite t_text_Nt, Hk. cbn [str_eqb].
+  destruct (Z.eqb_spec c0 c) as [->|N]; [congruence | reflexivity].
+Qed.
+
+(* ext_lookup facts *)
+Lemma ext_lookup_decimal : ext_lookup (s_of "decimal") = Some (1%Z, false). Proof. vm_compute. reflexivity. Qed.
+Lemma ext_lookup_datetime : ext_lookup (s_of "datetime") = Some (1%Z, false). Proof. vm_compute. reflexivity. Qed.
+Lemma ext_lookup_duration : ext_lookup (s_of "duration") = Some (1%Z, false). Proof. vm_compute. reflexivity. Qed.
+Lemma ext_lookup_ip : ext_lookup (s_of "ip") = Some (1%Z, false). Proof. vm_compute. reflexivity. Qed.
+
+(* ============================================================================================================ *)
+(* Part 2: renderings                                                                                             *)
+(* ============================================================================================================ *)
 Ltac contb := cbn [bnd]; contc.
 
 Fixpoint tcommas (l : list (list token)) : list token :=
@@ -19,7 +964,6 @@ Section RT.
 
   Notation EI := (expr_items is_printable is_gext set_order print_ip extra).
   Notation VI := (value_items is_printable is_gext set_order print_ip).
-  Notation commas' := (commas).
   Definition TE (e : expr) : list token := toks_of (EI e).
   Definition TV (v : value) : list token := toks_of (VI v).
   Definition lev (e : expr) : nat := prec_n (prec_of e).
@@ -265,29 +1209,33 @@ Section RT.
 
   Ltac okd := repeat match goal with H : _ && _ = true |- _ => apply andb_true_iff in H; destruct H end.
 
+  Ltac hd_ih a := match goal with IH : eok a = true -> Hd a |- _ => apply IH; assumption end.
+  Ltac hd_lev := unfold lev; cbn [prec_of prec_n]; intros; lia.
+  Ltac hd_lev7 := unfold lev; cbn [prec_of prec_n starts_with_int]; intros; split; [lia | reflexivity].
+
   Lemma head_expr : forall e, eok e = true -> Hd e.
   Proof.
     induction e using expr_ind'; intros Hok; cbn [expr_ok] in Hok; okd;
       idtac.
-    all: try (match goal with
-           | |- Hd (?C ?a ?b) =>
-             match goal with IH : eok a = true -> Hd a |- _ =>
-               first [ apply (Hd_child _ a POr (O "||" :: TC PAnd b)); [apply IH; assumption | apply TE_or | cbn; lia | unfold lev; cbn; intros; lia]
-                     | apply (Hd_child _ a PAnd (O "&&" :: TC PRel b)); [apply IH; assumption | apply TE_and | cbn; lia | unfold lev; cbn; intros; lia]
-                     | apply (Hd_child _ a PAdd (O "+" :: TC PMul b)); [apply IH; assumption | apply TE_add | cbn; lia | unfold lev; cbn; intros; lia]
-                     | apply (Hd_child _ a PAdd (O "-" :: TC PMul b)); [apply IH; assumption | apply TE_sub | cbn; lia | unfold lev; cbn; intros; lia]
-                     | apply (Hd_child _ a PMul (O "*" :: TC PUnary b)); [apply IH; assumption | apply TE_mul | cbn; lia | unfold lev; cbn; intros; lia]
-                     | apply (Hd_child _ a PAdd (O "<" :: TC PAdd b)); [apply IH; assumption | apply TE_lt | cbn; lia | unfold lev; cbn; intros; lia]
-                     | apply (Hd_child _ a PAdd (O "<=" :: TC PAdd b)); [apply IH; assumption | apply TE_le | cbn; lia | unfold lev; cbn; intros; lia]
-                     | apply (Hd_child _ a PAdd (O ">" :: TC PAdd b)); [apply IH; assumption | apply TE_gt | cbn; lia | unfold lev; cbn; intros; lia]
-                     | apply (Hd_child _ a PAdd (O ">=" :: TC PAdd b)); [apply IH; assumption | apply TE_ge | cbn; lia | unfold lev; cbn; intros; lia]
-                     | apply (Hd_child _ a PAdd (O "==" :: TC PAdd b)); [apply IH; assumption | apply TE_eq | cbn; lia | unfold lev; cbn; intros; lia]
-                     | apply (Hd_child _ a PAdd (O "!=" :: TC PAdd b)); [apply IH; assumption | apply TE_ne | cbn; lia | unfold lev; cbn; intros; lia]
-                     | apply (Hd_child _ a PAdd (K "in" :: TC PAdd b)); [apply IH; assumption | apply TE_in | cbn; lia | unfold lev; cbn; intros; lia]
-                     | eapply (Hd_child _ a PAccess); [apply IH; assumption | first [apply TE_contains | apply TE_containsAll | apply TE_containsAny | apply TE_getTag | apply TE_hasTag] | cbn; lia | unfold lev; cbn; intros; split; [lia | reflexivity]]
-                     ]
-             end
-           end).
+    all: try (lazymatch goal with
+      | |- Hd (EOr ?a ?b) => apply (Hd_child _ a POr (O "||" :: TC PAnd b)); [hd_ih a | apply TE_or | cbn [prec_n]; lia | hd_lev]
+      | |- Hd (EAnd ?a ?b) => apply (Hd_child _ a PAnd (O "&&" :: TC PRel b)); [hd_ih a | apply TE_and | cbn [prec_n]; lia | hd_lev]
+      | |- Hd (EAdd ?a ?b) => apply (Hd_child _ a PAdd (O "+" :: TC PMul b)); [hd_ih a | apply TE_add | cbn [prec_n]; lia | hd_lev]
+      | |- Hd (ESub ?a ?b) => apply (Hd_child _ a PAdd (O "-" :: TC PMul b)); [hd_ih a | apply TE_sub | cbn [prec_n]; lia | hd_lev]
+      | |- Hd (EMul ?a ?b) => apply (Hd_child _ a PMul (O "*" :: TC PUnary b)); [hd_ih a | apply TE_mul | cbn [prec_n]; lia | hd_lev]
+      | |- Hd (ELt ?a ?b) => apply (Hd_child _ a PAdd (O "<" :: TC PAdd b)); [hd_ih a | apply TE_lt | cbn [prec_n]; lia | hd_lev]
+      | |- Hd (ELe ?a ?b) => apply (Hd_child _ a PAdd (O "<=" :: TC PAdd b)); [hd_ih a | apply TE_le | cbn [prec_n]; lia | hd_lev]
+      | |- Hd (EGt ?a ?b) => apply (Hd_child _ a PAdd (O ">" :: TC PAdd b)); [hd_ih a | apply TE_gt | cbn [prec_n]; lia | hd_lev]
+      | |- Hd (EGe ?a ?b) => apply (Hd_child _ a PAdd (O ">=" :: TC PAdd b)); [hd_ih a | apply TE_ge | cbn [prec_n]; lia | hd_lev]
+      | |- Hd (EEq ?a ?b) => apply (Hd_child _ a PAdd (O "==" :: TC PAdd b)); [hd_ih a | apply TE_eq | cbn [prec_n]; lia | hd_lev]
+      | |- Hd (ENe ?a ?b) => apply (Hd_child _ a PAdd (O "!=" :: TC PAdd b)); [hd_ih a | apply TE_ne | cbn [prec_n]; lia | hd_lev]
+      | |- Hd (EIn ?a ?b) => apply (Hd_child _ a PAdd (K "in" :: TC PAdd b)); [hd_ih a | apply TE_in | cbn [prec_n]; lia | hd_lev]
+      | |- Hd (EContains ?a ?b) => eapply (Hd_child _ a PAccess); [hd_ih a | apply TE_contains | cbn [prec_n]; lia | hd_lev7]
+      | |- Hd (EContainsAll ?a ?b) => eapply (Hd_child _ a PAccess); [hd_ih a | apply TE_containsAll | cbn [prec_n]; lia | hd_lev7]
+      | |- Hd (EContainsAny ?a ?b) => eapply (Hd_child _ a PAccess); [hd_ih a | apply TE_containsAny | cbn [prec_n]; lia | hd_lev7]
+      | |- Hd (EGetTag ?a ?b) => eapply (Hd_child _ a PAccess); [hd_ih a | apply TE_getTag | cbn [prec_n]; lia | hd_lev7]
+      | |- Hd (EHasTag ?a ?b) => eapply (Hd_child _ a PAccess); [hd_ih a | apply TE_hasTag | cbn [prec_n]; lia | hd_lev7]
+      end).
     - (* ELit *)
       unfold Hd. destruct v as [[|]|z|s|ty id|l|kvs|z|z|z|v6 a p].
       + exists (K "true"), []. split; [reflexivity | hg_closed].
@@ -1012,4 +1960,427 @@ Section RT.
   Qed.
 End RT.
 
+(* ------------------------------------------------------------------------------------------------------------ *)
+(* policies: entities, scopes, annotations, conditions                                                            *)
+(* ------------------------------------------------------------------------------------------------------------ *)
+Lemma ev_entity_rest : forall r acc s id R, string_value s = Some id -> R <> [] ->
+  Ev (fun f => entity_rest f acc (sep_toks r ++ O "::" :: St s :: R)) (fold_left jf r acc, id) R.
+Proof.
+  induction r as [|c r IH]; intros acc s id R Hs HR.
+  - exists 1. intros f Hf. destruct f as [|f]; [lia|]. cbn [sep_toks app entity_rest fold_left].
+    rewrite exact_cons by (reflexivity || ne). tok_eval. rewrite Hs, adv_cons by exact HR. reflexivity.
+  - destruct (IH (jf acc c) s id R Hs HR) as [f0 H]. exists (S f0). intros f Hf. destruct f as [|f]; [lia|].
+    cbn [sep_toks app entity_rest fold_left]. rewrite exact_cons by (reflexivity || ne). tok_eval.
+    rewrite adv_cons by ne. apply H. lia.
+Qed.
+
+Lemma ev_p_entity : forall c r s id R, string_value s = Some id -> R <> [] ->
+  Ev (fun f => p_entity f (Id c :: sep_toks r ++ O "::" :: St s :: R)) (join_path (c :: r), id) R.
+Proof.
+  intros c r s id R Hs HR. destruct (ev_entity_rest r c s id R Hs HR) as [f0 H]. exists f0. intros f Hf.
+  unfold p_entity. tok_eval. rewrite adv_cons by ne. rewrite <- fold_jf_join. apply H. exact Hf.
+Qed.
+
+Definition good_ent (it : list token * uid) : Prop :=
+  (forall R, R <> [] -> Ev (fun f => p_entity f (fst it ++ R)) (snd it) R) /\
+  exists h tl, fst it = h :: tl /\ tx h "]" = false.
+
+Lemma ev_entlist : forall items acc R, Forall good_ent items ->
+  Ev (fun f => p_entlist f (tcommas (map fst items) ++ O "]" :: R) acc) (acc ++ map snd items) (O "]" :: R).
+Proof.
+  intros items acc R H. revert acc. induction H as [|[X u] items [HE (h & tl & EX & Hh)] Hrest IH]; intros acc.
+  - cbn [map tcommas app]. rewrite app_nil_r. exists 1. intros f Hf. destruct f as [|f]; [lia|].
+    cbn [p_entlist]. tok_eval. reflexivity.
+  - cbn [fst snd] in *. destruct items as [|it2 items'].
+    + cbn [map fst snd tcommas app]. destruct (HE (O "]" :: R) ltac:(ne)) as [f0 H0].
+      exists (S (S f0)). intros f Hf. destruct f as [|f]; [lia|]. cbn [p_entlist].
+      replace (tx (peek (X ++ O "]" :: R)) "]") with false by (subst X; symmetry; exact Hh).
+      rewrite H0 by lia. tok_eval. destruct f as [|f]; [lia|]. cbn [p_entlist]. tok_eval. reflexivity.
+    + change (tcommas (map fst ((X, u) :: it2 :: items'))) with (X ++ O "," :: tcommas (map fst (it2 :: items'))).
+      change (map snd ((X, u) :: it2 :: items')) with (u :: map snd (it2 :: items')).
+      rewrite <- app_assoc. cbn [app].
+      destruct (HE (O "," :: tcommas (map fst (it2 :: items')) ++ O "]" :: R) ltac:(ne)) as [f0 H0].
+      destruct (IH (acc ++ [u])) as [f1 H1].
+      exists (S (f0 + f1)). intros f Hf. destruct f as [|f]; [lia|]. cbn [p_entlist].
+      replace (tx (peek (X ++ O "," :: tcommas (map fst (it2 :: items')) ++ O "]" :: R)) "]") with false by (subst X; symmetry; exact Hh).
+      rewrite H0 by lia. tok_eval. rewrite adv_cons by ne. rewrite <- app_assoc in H1. apply H1. lia.
+Qed.
+
+(* scopes *)
+Lemma ev_scope_pr_all : forall ts, tx (peek ts) "==" = false -> tx (peek ts) "is" = false -> tx (peek ts) "in" = false ->
+  Ev (fun f => p_scope_pr f ts) SAll ts.
+Proof. intros ts H1 H2 H3. exists 0. intros f _. unfold p_scope_pr. cbv zeta. rewrite H1, H2, H3. reflexivity. Qed.
+
+Lemma ev_scope_pr_eq : forall l u R, l <> [] -> Ev (fun f => p_entity f l) u R -> Ev (fun f => p_scope_pr f (O "==" :: l)) (SEq u) R.
+Proof.
+  intros l u R Hl [f0 H]. exists f0. intros f Hf. unfold p_scope_pr. tok_eval. rewrite adv_cons by exact Hl.
+  rewrite H by exact Hf. reflexivity.
+Qed.
+
+Lemma ev_scope_pr_in : forall l u R, l <> [] -> Ev (fun f => p_entity f l) u R -> Ev (fun f => p_scope_pr f (K "in" :: l)) (SIn u) R.
+Proof.
+  intros l u R Hl [f0 H]. exists f0. intros f Hf. unfold p_scope_pr. tok_eval. rewrite adv_cons by exact Hl.
+  rewrite H by exact Hf. reflexivity.
+Qed.
+
+Lemma ev_scope_pr_is : forall l ty R, l <> [] -> Ev (fun f => p_path f l) ty R -> tx (peek R) "in" = false ->
+  Ev (fun f => p_scope_pr f (K "is" :: l)) (SIs ty) R.
+Proof.
+  intros l ty R Hl [f0 H] Hin. exists f0. intros f Hf. unfold p_scope_pr. tok_eval. rewrite adv_cons by exact Hl.
+  rewrite H by exact Hf. rewrite Hin. reflexivity.
+Qed.
+
+Lemma ev_scope_pr_isin : forall l ty l2 u R, l <> [] -> Ev (fun f => p_path f l) ty (K "in" :: l2) -> l2 <> [] ->
+  Ev (fun f => p_entity f l2) u R -> Ev (fun f => p_scope_pr f (K "is" :: l)) (SIsIn ty u) R.
+Proof.
+  intros l ty l2 u R Hl [f0 H] Hl2 [f1 H1]. exists (f0 + f1). intros f Hf. unfold p_scope_pr. tok_eval.
+  rewrite adv_cons by exact Hl. rewrite H by lia. tok_eval. rewrite adv_cons by exact Hl2. rewrite H1 by lia. reflexivity.
+Qed.
+
+Lemma ev_scope_act_all : forall ts, tx (peek ts) "==" = false -> tx (peek ts) "in" = false ->
+  Ev (fun f => p_scope_action f ts) SAll ts.
+Proof. intros ts H1 H3. exists 0. intros f _. unfold p_scope_action. cbv zeta. rewrite H1, H3. reflexivity. Qed.
+
+Lemma ev_scope_act_eq : forall l u R, l <> [] -> Ev (fun f => p_entity f l) u R -> Ev (fun f => p_scope_action f (O "==" :: l)) (SEq u) R.
+Proof.
+  intros l u R Hl [f0 H]. exists f0. intros f Hf. unfold p_scope_action. tok_eval. rewrite adv_cons by exact Hl.
+  rewrite H by exact Hf. reflexivity.
+Qed.
+
+Lemma ev_scope_act_in : forall l u R, l <> [] -> tx (peek l) "[" = false -> Ev (fun f => p_entity f l) u R ->
+  Ev (fun f => p_scope_action f (K "in" :: l)) (SIn u) R.
+Proof.
+  intros l u R Hl Hb [f0 H]. exists f0. intros f Hf. unfold p_scope_action. tok_eval. rewrite adv_cons by exact Hl.
+  rewrite Hb. rewrite H by exact Hf. reflexivity.
+Qed.
+
+Lemma ev_scope_act_inset : forall l es R, l <> [] -> Ev (fun f => p_entlist f l []) es (O "]" :: R) -> R <> [] ->
+  Ev (fun f => p_scope_action f (K "in" :: O "[" :: l)) (SInSet es) R.
+Proof.
+  intros l es R Hl [f0 H] HR. exists f0. intros f Hf. unfold p_scope_action. tok_eval. rewrite adv_cons by ne. tok_eval.
+  rewrite adv_cons by exact Hl. rewrite H by exact Hf. rewrite adv_cons by exact HR. reflexivity.
+Qed.
+
+(* annotations *)
+Definition aitem := (str * str * str)%type.   (* key, quoted text, value *)
+Definition a_toks (it : aitem) : list token := [O "@"; Id (fst (fst it)); O "("; St (snd (fst it)); O ")"].
+Definition a_kv (it : aitem) : str * str := (fst (fst it), snd it).
+
+Lemma ev_annots : forall l acc seen R, R <> [] -> tx (peek R) "@" = false ->
+  Forall (fun it : aitem => string_value (snd (fst it)) = Some (snd it)) l ->
+  fresh_keys (map (fun it : aitem => fst (fst it)) l) seen = true ->
+  (forall k, existsb (fun kv : str * str => str_eqb (fst kv) k) acc = existsb (str_eqb k) seen) ->
+  Ev (fun f => p_annotations f (flat_map a_toks l ++ R) acc) (acc ++ map a_kv l) R.
+Proof.
+  intros l acc seen R HR Hat H. revert acc seen. induction H as [|[[k s] v] l Hs Hrest IH]; intros acc seen Hf Hinv.
+  - cbn [flat_map map app]. rewrite app_nil_r. exists 1. intros f Hf0. destruct f as [|f]; [lia|].
+    cbn [p_annotations]. rewrite Hat. reflexivity.
+  - cbn [fst snd] in Hs. cbn [map fresh_keys fst] in Hf. apply andb_true_iff in Hf. destruct Hf as [Hf1 Hf2].
+    apply negb_true_iff in Hf1.
+    assert (Hinv' : forall k0, existsb (fun kv : str * str => str_eqb (fst kv) k0) (acc ++ [(k, v)]) = existsb (str_eqb k0) (k :: seen)).
+    { intros k0. rewrite existsb_app. cbn [existsb fst]. rewrite Hinv.
+      rewrite orb_false_r, orb_comm, (str_eqb_sym k k0). reflexivity. }
+    destruct (IH (acc ++ [(k, v)]) (k :: seen) Hf2 Hinv') as [f0 H0].
+    exists (S f0). intros f Hf0. destruct f as [|f]; [lia|].
+    cbn [flat_map a_toks fst snd app map a_kv]. cbn [p_annotations]. tok_eval.
+    rewrite adv_cons by ne. tok_eval. rewrite adv_cons by ne. rewrite exact_cons by (reflexivity || ne).
+    rewrite Hinv, Hf1. tok_eval. rewrite Hs. rewrite adv_cons by ne. rewrite exact_cons by (reflexivity || ne).
+    rewrite <- app_assoc in H0. apply H0. lia.
+Qed.
+
+(* conditions *)
+Definition citem := (bool * list token * expr)%type.
+Definition c_toks (it : citem) : list token := I (if fst (fst it) then "when" else "unless") :: O "{" :: snd (fst it) ++ [O "}"].
+Definition c_kv (it : citem) : bool * expr := (fst (fst it), snd it).
+Definition good_cond (it : citem) : Prop :=
+  forall R, Ev (fun f => p_expression f (snd (fst it) ++ O "}" :: R)) (snd it) (O "}" :: R).
+
+Lemma ev_conds : forall l acc R, R <> [] -> tx (peek R) "when" = false -> tx (peek R) "unless" = false ->
+  Forall good_cond l ->
+  Ev (fun f => p_conditions f (flat_map c_toks l ++ R) acc) (acc ++ map c_kv l) R.
+Proof.
+  intros l acc R HR H1 H2 H. revert acc. induction H as [|[[k X] v] l Hg Hrest IH]; intros acc.
+  - cbn [flat_map map app]. rewrite app_nil_r. exists 1. intros f Hf0. destruct f as [|f]; [lia|].
+    cbn [p_conditions]. cbv zeta. rewrite H1, H2. reflexivity.
+  - destruct (IH (acc ++ [(k, v)])) as [f0 H0]. destruct (Hg (flat_map c_toks l ++ R)) as [f1 Hg1]. cbn [fst snd] in Hg1.
+    exists (S (f0 + f1)). intros f Hf0. destruct f as [|f]; [lia|].
+    cbn [flat_map map]. unfold c_toks at 1, c_kv at 1. cbn [fst snd]. rewrite <- !app_comm_cons. rewrite <- !app_assoc. cbn [app].
+    cbn [p_conditions]. destruct k; tok_eval; rewrite adv_cons by ne; rewrite exact_cons by (reflexivity || ne);
+      rewrite Hg1 by lia; rewrite exact_cons by (reflexivity || ne); rewrite <- app_assoc in H0; apply H0; lia.
+Qed.
+
+Lemma toks_of_flat_map : forall (A : Type) (f : A -> list item) l, toks_of (flat_map f l) = flat_map (fun x => toks_of (f x)) l.
+Proof. intros A f l. induction l as [|x l IH]; [reflexivity|]. cbn [flat_map]. rewrite toks_of_app, IH. reflexivity. Qed.
+
+Lemma flat_map_map : forall (A B C : Type) (g : B -> list C) (h : A -> B) l, flat_map g (map h l) = flat_map (fun x => g (h x)) l.
+Proof. intros A B C g h l. induction l as [|x l IH]; [reflexivity|]. cbn [map flat_map]. rewrite IH. reflexivity. Qed.
+
+Section POL.
+  Variables (is_printable is_gext : Z -> bool) (set_order : list value -> list nat) (print_ip : bool -> Z -> Z -> str) (extra : expr -> bool).
+  Hypothesis print_ip_plain : forall v6 a p, Forall (fun c => 32 <= c < 127 /\ c <> 34 /\ c <> 92)%Z (print_ip v6 a p).
+
+  Notation Sq' := (Sq is_printable is_gext).
+  Notation TEx := (TE is_printable is_gext set_order print_ip).
+  Notation TCx := (TC is_printable is_gext set_order print_ip).
+  Notation nm := (norm set_order print_ip).
+
+  Definition TU (u : uid) : list token := TP (fst u) ++ [O "::"; Sq' (snd u)].
+
+  Definition STail (s : scope) : list token :=
+    match s with
+    | SAll => []
+    | SEq u => O "==" :: TU u
+    | SIn u => K "in" :: TU u
+    | SInSet us => K "in" :: O "[" :: tcommas (map TU us) ++ [O "]"]
+    | SIs ty => K "is" :: TP ty
+    | SIsIn ty u => K "is" :: TP ty ++ K "in" :: TU u
+    end.
+
+  Lemma TC_prim_noextra : forall this e, prec_n this <= lev e -> TCx no_extra this e = TEx no_extra e.
+  Proof.
+    intros this e H. rewrite TC_eq. unfold no_extra. rewrite orb_false_r.
+    destruct (Nat.ltb_spec (lev e) (prec_n this)) as [Hlt|Hge]; [lia | reflexivity].
+  Qed.
+
+  Definition ent (u : uid) : expr := ELit (VEntity (fst u) (snd u)).
+
+  Lemma TE_ent : forall ex u, TEx ex (ent u) = TU u.
+  Proof. intros ex u. unfold ent. rewrite TE_lit, TV_entity. reflexivity. Qed.
+
+  Lemma scope_toks : forall x s, toks_of (scope_items is_printable is_gext set_order print_ip x s) = var_tok x :: STail s.
+  Proof.
+    intros x s. unfold scope_items. destruct s as [|u|u|us|ty|ty u]; cbn [scope_expr STail].
+    - destruct x; reflexivity.
+    - fold (ent u). change (toks_of (expr_items is_printable is_gext set_order print_ip no_extra (EEq (EVar x) (ent u)))) with (TEx no_extra (EEq (EVar x) (ent u))).
+      rewrite TE_eq, !TC_prim_noextra by (unfold lev; cbn [ent prec_of prec_n]; lia). rewrite TE_var, TE_ent. reflexivity.
+    - fold (ent u). change (toks_of (expr_items is_printable is_gext set_order print_ip no_extra (EIn (EVar x) (ent u)))) with (TEx no_extra (EIn (EVar x) (ent u))).
+      rewrite TE_in, !TC_prim_noextra by (unfold lev; cbn [ent prec_of prec_n]; lia). rewrite TE_var, TE_ent. reflexivity.
+    - change (map (fun u : uid => ELit (VEntity (fst u) (snd u))) us) with (map ent us).
+      change (toks_of (expr_items is_printable is_gext set_order print_ip no_extra (EIn (EVar x) (ESet (map ent us))))) with (TEx no_extra (EIn (EVar x) (ESet (map ent us)))).
+      rewrite TE_in, !TC_prim_noextra by (unfold lev; cbn [prec_of prec_n]; lia). rewrite TE_var, TE_set. rewrite map_map.
+      assert (E : map (fun u => TCx no_extra PUnary (ent u)) us = map TU us).
+      { apply map_ext. intros u. rewrite TC_prim_noextra by (unfold lev; cbn [ent prec_of prec_n]; lia). apply TE_ent. }
+      rewrite E. reflexivity.
+    - change (toks_of (expr_items is_printable is_gext set_order print_ip no_extra (EIs (EVar x) ty))) with (TEx no_extra (EIs (EVar x) ty)).
+      rewrite TE_is, !TC_prim_noextra by (unfold lev; cbn [prec_of prec_n]; lia). rewrite TE_var. reflexivity.
+    - fold (ent u). change (toks_of (expr_items is_printable is_gext set_order print_ip no_extra (EIsIn (EVar x) ty (ent u)))) with (TEx no_extra (EIsIn (EVar x) ty (ent u))).
+      rewrite TE_isin, !TC_prim_noextra by (unfold lev; cbn [ent prec_of prec_n]; lia). rewrite TE_var, TE_ent. reflexivity.
+  Qed.
+
+  Lemma uid_ok_inv : forall u, uid_ok u = true ->
+    exists c r, split_path (fst u) = c :: r /\ can_ident c = true /\ TU u = Id c :: sep_toks r ++ [O "::"; Sq' (snd u)] /\
+                string_value (quote_string is_printable is_gext (snd u)) = Some (snd u).
+  Proof.
+    intros u H. unfold uid_ok in H. apply andb_true_iff in H. destruct H as [Hp Hid].
+    destruct (TP_shape (fst u)) as (c & r & Es & Et). exists c, r. split; [exact Es|]. split.
+    - unfold path_ok in Hp. rewrite Es in Hp. cbn [forallb] in Hp. apply andb_true_iff in Hp. destruct Hp as [Hp _]. exact Hp.
+    - split; [unfold TU; rewrite Et; reflexivity | apply sv_quote; exact Hid].
+  Qed.
+
+  Lemma ev_TU : forall u R, uid_ok u = true -> R <> [] -> Ev (fun f => p_entity f (TU u ++ R)) u R.
+  Proof.
+    intros u R H HR. destruct (uid_ok_inv u H) as (c & r & Es & Hc & Et & Hs). rewrite Et.
+    rewrite <- app_comm_cons, <- app_assoc. cbn [app].
+    pose proof (ev_p_entity c r _ (snd u) R Hs HR) as H0. rewrite <- Es, join_split in H0.
+    destruct u as [ty id]. exact H0.
+  Qed.
+
+  Lemma TU_head : forall u, uid_ok u = true -> exists h tl, TU u = h :: tl /\ tx h "]" = false /\ tx h "[" = false.
+  Proof.
+    intros u H. destruct (uid_ok_inv u H) as (c & r & Es & Hc & Et & Hs). rewrite Et. eexists _, _. split; [reflexivity|]. split.
+    - apply (tx_ident_first c "]" 93%Z []); [exact Hc | reflexivity | reflexivity].
+    - apply (tx_ident_first c "[" 91%Z []); [exact Hc | reflexivity | reflexivity].
+  Qed.
+
+  Lemma ev_scope_pr_tail : forall s R, principal_scope_ok s = true -> R <> [] -> cont (peek R) <= 0 ->
+    Ev (fun f => p_scope_pr f (STail s ++ R)) s R.
+  Proof.
+    intros s R Hok HR Hc. destruct s as [|u|u|us|ty|ty u]; cbn [principal_scope_ok scope_ok STail] in *.
+    - cbn [app]. apply ev_scope_pr_all; txf.
+    - cbn [app]. apply ev_scope_pr_eq; [destruct (TU_head u Hok) as (h & tl & -> & _); discriminate | apply ev_TU; assumption].
+    - cbn [app]. apply ev_scope_pr_in; [destruct (TU_head u Hok) as (h & tl & -> & _); discriminate | apply ev_TU; assumption].
+    - discriminate Hok.
+    - cbn [app]. apply ev_scope_pr_is; [ne | apply ev_TP; [exact HR | txf] | txf].
+    - apply andb_true_iff in Hok. destruct Hok as [Hty Hu]. cbn [app]. rewrite <- app_assoc. cbn [app].
+      apply (ev_scope_pr_isin _ ty (TU u ++ R)); [ne | apply ev_TP; [ne | reflexivity] | ne | apply ev_TU; assumption].
+  Qed.
+
+  Lemma ev_scope_act_tail : forall s R, action_scope_ok s = true -> R <> [] -> cont (peek R) <= 0 ->
+    Ev (fun f => p_scope_action f (STail s ++ R)) s R.
+  Proof.
+    intros s R Hok HR Hc. destruct s as [|u|u|us|ty|ty u]; cbn [action_scope_ok scope_ok STail] in *.
+    - cbn [app]. apply ev_scope_act_all; txf.
+    - cbn [app]. apply ev_scope_act_eq; [destruct (TU_head u Hok) as (h & tl & -> & _); discriminate | apply ev_TU; assumption].
+    - cbn [app]. destruct (TU_head u Hok) as (h & tl & E & _ & Hb).
+      apply ev_scope_act_in; [rewrite E; discriminate | rewrite E; exact Hb | apply ev_TU; assumption].
+    - cbn [app]. rewrite <- app_assoc. cbn [app].
+      apply ev_scope_act_inset; [ne | | exact HR].
+      assert (HF : Forall good_ent (map (fun u => (TU u, u)) us)).
+      { apply Forall_forall. intros it Hit. apply in_map_iff in Hit. destruct Hit as (u & <- & Hu).
+        rewrite forallb_forall in Hok. specialize (Hok u Hu). split; cbn [fst snd].
+        + intros R' HR'. apply ev_TU; assumption.
+        + destruct (TU_head u Hok) as (h & tl & E & Hb & _). exists h, tl. split; assumption. }
+      pose proof (ev_entlist (map (fun u => (TU u, u)) us) [] R HF) as H0.
+      rewrite !map_map in H0. cbn [fst snd app] in H0. rewrite map_id in H0. exact H0.
+    - discriminate Hok.
+    - discriminate Hok.
+  Qed.
+
+  (* ---- the token list of a policy ---- *)
+  Definition AT (annots : list (str * str)) : list token :=
+    flat_map a_toks (map (fun kv : str * str => (fst kv, quote_string is_printable is_gext (snd kv), snd kv)) annots).
+  Definition CT (conds : list (bool * expr)) : list token :=
+    flat_map c_toks (map (fun c : bool * expr => (fst c, TEx extra (snd c), nm (snd c))) conds).
+  Definition PT (annots : list (str * str)) (p : policy) (rest : list token) : list token :=
+    AT annots ++ I (if p_effect p then "permit" else "forbid") :: O "(" :: var_tok VPrincipal :: STail (p_principal p) ++
+    O "," :: var_tok VAction :: STail (p_action p) ++ O "," :: var_tok VResource :: STail (p_resource p) ++
+    O ")" :: CT (p_conds p) ++ O ";" :: rest.
+
+  Notation SIx := (scope_items is_printable is_gext set_order print_ip).
+
+  Lemma scope_general_toks : forall s1 s2 s3,
+      toks_of ([op "("; indent] ++ SIx VPrincipal s1 ++ [op ","; indent] ++ SIx VAction s2
+               ++ [op ","; indent] ++ SIx VResource s3 ++ [nl; op ")"])
+      = O "(" :: var_tok VPrincipal :: STail s1 ++ O "," :: var_tok VAction :: STail s2 ++ O "," :: var_tok VResource :: STail s3 ++ [O ")"].
+  Proof. intros s1 s2 s3. rewrite !toks_of_app, !scope_toks. reflexivity. Qed.
+
+  Lemma policy_toks : forall annots p rest,
+    toks_of (policy_items is_printable is_gext set_order print_ip extra annots p) ++ rest = PT annots p rest.
+  Proof.
+    intros annots p rest. destruct p as [eff s1 s2 s3 conds]. unfold policy_items, PT.
+    cbn [p_effect p_principal p_action p_resource p_conds]. rewrite !toks_of_app.
+    match goal with
+    | |- (_ ++ (_ ++ (toks_of ?m ++ _))) ++ _ = _ =>
+      assert (ES : toks_of m = O "(" :: var_tok VPrincipal :: STail s1 ++ O "," :: var_tok VAction :: STail s2 ++ O "," :: var_tok VResource :: STail s3 ++ [O ")"])
+    end.
+    { destruct s1; [destruct s2; [destruct s3; [reflexivity|..]|..]|..]; cbv zeta; apply scope_general_toks. }
+    rewrite ES. clear ES.
+    rewrite !toks_of_flat_map.
+    assert (EA : flat_map (fun x : str * str => toks_of [op "@"; T TIdent (fst x); op "("; str_item is_printable is_gext (snd x); op ")"; nl]) annots
+                 = AT annots).
+    { unfold AT. rewrite flat_map_map. apply flat_map_ext. intros kv. reflexivity. }
+    assert (EC : flat_map (fun x : bool * expr => toks_of ([nl; idt (if fst x then "when" else "unless"); sp; op "{"; sp]
+                    ++ expr_items is_printable is_gext set_order print_ip extra (snd x) ++ [sp; op "}"])) conds
+                 = CT conds).
+    { unfold CT. rewrite flat_map_map. apply flat_map_ext. intros c. rewrite !toks_of_app. unfold c_toks. cbn [fst snd].
+      destruct (fst c); reflexivity. }
+    rewrite EA, EC. repeat first [rewrite <- app_assoc | progress cbn [app]].
+    destruct eff; reflexivity.
+  Qed.
+
+  Lemma map_pair_id : forall (A B : Type) (l : list (A * B)), map (fun kv => (fst kv, snd kv)) l = l.
+  Proof. intros A B l. induction l as [|[a b] l IH]; [reflexivity|]. cbn [map fst snd]. rewrite IH. reflexivity. Qed.
+
+  Lemma first_pos : forall annots t l, 
+    let first := peek (AT annots ++ mk t :: l) in (t_off first, t_line first, t_col first) = (0, 0, 0)%Z.
+  Proof. intros annots t l. destruct annots as [|kv annots]; reflexivity. Qed.
+
+  Theorem parse_print_policy : forall annots p rest,
+      policy_ok set_order annots p = true -> rest <> [] ->
+      exists f0, forall f, (f0 <= f)%nat ->
+        p_policy f (toks_of (policy_items is_printable is_gext set_order print_ip extra annots p) ++ rest)
+        = POk {| pp_annots := annots; pp_pos := (0, 0, 0)%Z; pp_policy := norm_policy set_order print_ip p |} rest.
+  Proof.
+    intros annots p rest Hok Hrest. rewrite policy_toks. destruct p as [eff s1 s2 s3 conds].
+    unfold policy_ok in Hok. cbn [p_effect p_principal p_action p_resource p_conds] in Hok.
+    apply andb_true_iff in Hok. destruct Hok as [Hok Hconds]. apply andb_true_iff in Hok. destruct Hok as [Hok Hs3].
+    apply andb_true_iff in Hok. destruct Hok as [Hok Hs2]. apply andb_true_iff in Hok. destruct Hok as [Han Hs1].
+    unfold annots_ok in Han. apply andb_true_iff in Han. destruct Han as [Hdist Hvals].
+    unfold PT, norm_policy. cbn [p_effect p_principal p_action p_resource p_conds].
+    set (rc := CT conds ++ O ";" :: rest).
+    set (r3 := STail s3 ++ O ")" :: rc).
+    set (r2 := STail s2 ++ O "," :: var_tok VResource :: r3).
+    set (r1 := STail s1 ++ O "," :: var_tok VAction :: r2).
+    set (tk := I (if eff then "permit" else "forbid")).
+    assert (Nrc : rc <> []) by (unfold rc; ne).
+    assert (N3 : r3 <> []) by (unfold r3; ne).
+    assert (N2 : r2 <> []) by (unfold r2; ne).
+    assert (N1 : r1 <> []) by (unfold r1; ne).
+    assert (HA : Ev (fun f => p_annotations f (AT annots ++ tk :: O "(" :: var_tok VPrincipal :: r1) []) annots
+                    (tk :: O "(" :: var_tok VPrincipal :: r1)).
+    { unfold AT.
+      pose proof (ev_annots (map (fun kv : str * str => (fst kv, quote_string is_printable is_gext (snd kv), snd kv)) annots) [] []
+                            (tk :: O "(" :: var_tok VPrincipal :: r1)) as H0.
+      rewrite !map_map in H0. cbn [a_kv fst snd app] in H0. unfold a_kv in H0. cbn [fst snd] in H0. rewrite map_pair_id in H0.
+      apply H0.
+      - ne.
+      - unfold tk. destruct eff; reflexivity.
+      - apply Forall_forall. intros it Hit. apply in_map_iff in Hit. destruct Hit as (kv & <- & Hkv). cbn [fst snd].
+        rewrite forallb_forall in Hvals. specialize (Hvals kv Hkv). apply andb_true_iff in Hvals. destruct Hvals as [_ Hv].
+        apply sv_quote. exact Hv.
+      - rewrite <- distinct_keys_fresh. exact Hdist.
+      - intros k. reflexivity. }
+    assert (HS1 : Ev (fun f => p_scope_pr f r1) s1 (O "," :: var_tok VAction :: r2)).
+    { unfold r1. apply ev_scope_pr_tail; [exact Hs1 | ne | contc]. }
+    assert (HS2 : Ev (fun f => p_scope_action f r2) s2 (O "," :: var_tok VResource :: r3)).
+    { unfold r2. apply ev_scope_act_tail; [exact Hs2 | ne | contc]. }
+    assert (HS3 : Ev (fun f => p_scope_pr f r3) s3 (O ")" :: rc)).
+    { unfold r3. apply ev_scope_pr_tail; [exact Hs3 | ne | contc]. }
+    assert (HC : Ev (fun f => p_conditions f rc []) (map (fun c : bool * expr => (fst c, nm (snd c))) conds) (O ";" :: rest)).
+    { unfold rc, CT.
+      pose proof (ev_conds (map (fun c : bool * expr => (fst c, TEx extra (snd c), nm (snd c))) conds) [] (O ";" :: rest)) as H0.
+      rewrite !map_map in H0. unfold c_kv in H0. cbn [fst snd app] in H0. apply H0.
+      - ne.
+      - reflexivity.
+      - reflexivity.
+      - apply Forall_forall. intros it Hit. apply in_map_iff in Hit. destruct Hit as (c & <- & Hc).
+        rewrite forallb_forall in Hconds. specialize (Hconds c Hc). intros R. cbn [fst snd].
+        apply (parse_print_expr is_printable is_gext set_order print_ip extra print_ip_plain (snd c) (O "}" :: R) Hconds);
+          [discriminate | reflexivity]. }
+    destruct HA as [fa HA]. destruct HS1 as [f1 HS1]. destruct HS2 as [f2 HS2]. destruct HS3 as [f3 HS3]. destruct HC as [fc HC].
+    exists (fa + f1 + f2 + f3 + fc). intros f Hf.
+    unfold p_policy, bind, bexact.
+    rewrite HA by lia. cbv beta zeta. cbn [peek].
+    assert (Etk : (if tx tk "permit" then Some true else if tx tk "forbid" then Some false else None) = Some eff).
+    { unfold tk. destruct eff; reflexivity. }
+    rewrite Etk. rewrite adv_cons by ne. rewrite exact_cons by (reflexivity || ne).
+    rewrite exact_cons by (reflexivity || exact N1). rewrite HS1 by lia.
+    rewrite exact_cons by (reflexivity || ne). rewrite exact_cons by (reflexivity || exact N2). rewrite HS2 by lia.
+    rewrite exact_cons by (reflexivity || ne). rewrite exact_cons by (reflexivity || exact N3). rewrite HS3 by lia.
+    tok_eval. rewrite exact_cons by (reflexivity || exact Nrc). rewrite HC by lia.
+    rewrite exact_cons by (reflexivity || exact Hrest).
+    unfold tk. change (I (if eff then "permit"%string else "forbid"%string)) with (mk (TIdent, s_of (if eff then "permit"%string else "forbid"%string))).
+    rewrite first_pos. reflexivity.
+  Qed.
+
+  (* ---- a whole document: several policies followed by the EOF token ---- *)
+  Definition doc_toks (ps : list (list (str * str) * policy)) : list token :=
+    flat_map (fun ap => toks_of (policy_items is_printable is_gext set_order print_ip extra (fst ap) (snd ap))) ps ++ [eof_token].
+  Definition doc_result (ap : list (str * str) * policy) : ppolicy :=
+    {| pp_annots := fst ap; pp_pos := (0, 0, 0)%Z; pp_policy := norm_policy set_order print_ip (snd ap) |}.
+
+  Lemma PT_head : forall annots p rest, t_type (peek (PT annots p rest)) = TOperator \/ t_type (peek (PT annots p rest)) = TIdent.
+  Proof.
+    intros annots p rest. unfold PT. destruct annots as [|kv annots]; [right|left]; reflexivity.
+  Qed.
+
+  Lemma parse_print_policies_acc : forall ps acc,
+    Forall (fun ap => policy_ok set_order (fst ap) (snd ap) = true) ps ->
+    Ev (fun f => p_policies f (doc_toks ps) acc) (acc ++ map doc_result ps) [eof_token].
+  Proof.
+    induction ps as [|[an p] ps IH]; intros acc Hok.
+    - exists 1. intros f Hf. destruct f as [|f]; [lia|]. cbn [map]. rewrite app_nil_r. reflexivity.
+    - inversion Hok as [|ap ps' Hp Hps]; subst. cbn [fst snd] in Hp.
+      assert (Hne : doc_toks ps <> []) by (unfold doc_toks; ne).
+      destruct (parse_print_policy an p (doc_toks ps) Hp Hne) as [f1 H1].
+      destruct (IH (acc ++ [doc_result (an, p)]) Hps) as [f2 H2].
+      exists (S (f1 + f2)). intros f Hf. destruct f as [|f]; [lia|].
+      assert (E : doc_toks ((an, p) :: ps) = toks_of (policy_items is_printable is_gext set_order print_ip extra an p) ++ doc_toks ps).
+      { unfold doc_toks. cbn [flat_map fst snd]. rewrite <- app_assoc. reflexivity. }
+      rewrite E. cbn [p_policies].
+      assert (Hhd : t_type (peek (toks_of (policy_items is_printable is_gext set_order print_ip extra an p) ++ doc_toks ps)) = TOperator
+                    \/ t_type (peek (toks_of (policy_items is_printable is_gext set_order print_ip extra an p) ++ doc_toks ps)) = TIdent).
+      { rewrite policy_toks. apply PT_head. }
+      unfold bind. rewrite H1 by lia. cbn [map]. rewrite <- app_assoc in H2. cbn [app] in H2.
+      destruct Hhd as [-> | ->]; apply H2; lia.
+  Qed.
+
+  Theorem parse_print_policies : forall ps,
+    Forall (fun ap => policy_ok set_order (fst ap) (snd ap) = true) ps ->
+    exists f0, forall f, (f0 <= f)%nat -> p_policies f (doc_toks ps) [] = POk (map doc_result ps) [eof_token].
+  Proof. intros ps H. apply (parse_print_policies_acc ps [] H). Qed.
+End POL.
+
 Print Assumptions parse_print_expr.
+Print Assumptions parse_print_policy.
+Print Assumptions parse_print_policies.
